@@ -1,5 +1,10 @@
 /- C02 (task V): the evaluator operations of the MODEL (`ctNegate`, `ctTranslate`, `ctTranslateBalanced`, `ctMultiplyDyadic`,
-   `bgvMultiply`, `ctMultiplyPlainNtt`) are the ring operations on phases — for canonical operands of ALL sizes. -/
+   `bgvMultiply`, `ctMultiplyPlainNtt`) are the ring operations on phases — for canonical operands of ALL sizes 2..16
+   (no enumeration of sizes: the proofs follow the `mapM` / `foldlM` structure of the model).
+   For each operation: `_spec` (success, shape, canonicity, every residue), `_phase` (the phase Σ_k c_k s^k in ANY commutative
+   ring in which q_i = 0, any secret s, any reading `e` of the positions), refusals; for the product also the coefficient form
+   (`ctMultiplyDyadic_coeff`, negacyclic products via the NTT theorems of C09) and for BGV the correction factors and decoding.
+   Helper names carry the prefix `c02v_`; the user-facing theorems are at the end under "Property theorems". -/
 import Heathcliff.Model.Evaluator
 import Heathcliff.Proofs.C01J
 import Heathcliff.Proofs.C01O
@@ -9,13 +14,14 @@ import Mathlib.Algebra.BigOperators.Ring.Finset
 import Mathlib.Data.Int.ModEq
 import Mathlib.Tactic.Ring
 import Mathlib.Tactic.Linarith
+import Mathlib.Tactic.IntervalCases
 namespace HC
 open Finset
 
 /-! ## Definitions -/
 
 /-- residue `j` of RNS component `i` of polynomial `k` of a ciphertext -/
-def Ct.res (ct : Ct) (k i j : Nat) : Nat := ((ct.polys.getD k #[]).getD i #[]).getD j 0
+def Ct.c02v_res (ct : Ct) (k i j : Nat) : Nat := ((ct.polys.getD k #[]).getD i #[]).getD j 0
 
 /-- every modulus of the level is a well-formed word modulus (2 ≤ q < 2^61 with its Barrett constants) -/
 def c02v_QsWF (l : Level) : Prop := ∀ i, i < l.size → (l.q i).WF
@@ -29,11 +35,14 @@ def c02v_cfOk (l : Level) (f : Nat) : Prop :=
   | .bfv | .ckks => f = 1
   | .bgv => f ≠ 0 ∧ f ≤ l.t.value
 
-/-- canonical ciphertext at level `l`: 2 ≤ size ≤ 16, every polynomial canonical, correction factor in range -/
-structure CtCanon (l : Level) (ct : Ct) : Prop where
+/-- the polynomial part of canonicity: 2 ≤ size ≤ 16 and every polynomial canonical at level `l` -/
+structure c02v_PolysCanon (l : Level) (ct : Ct) : Prop where
   two_le : 2 ≤ ct.polys.size
   le16 : ct.polys.size ≤ 16
   canon : ∀ k, k < ct.polys.size → RnsCanon l (ct.polys.getD k #[])
+
+/-- canonical ciphertext at level `l`: 2 ≤ size ≤ 16, every polynomial canonical, correction factor in range -/
+structure CtCanon (l : Level) (ct : Ct) : Prop extends c02v_PolysCanon l ct where
   cf : c02v_cfOk l ct.cf
 
 /-- value of an RNS component under an assignment `e` of ring elements to the `n` positions
@@ -126,6 +135,777 @@ theorem c02v_polyVal_neg {S : Type} [CommRing S] {q n : Nat} (hS : ((q : Nat) : 
   rw [hr j hj, c02v_neg_cast hS (hp j hj).le]
   ring
 
+/-! ## V2  add / sub -/
+
+theorem c02v_rnsZip_spec {l : Level} {f : Nat → Nat → Modulus → R Nat} (g : Nat → Nat → Nat → Nat)
+    (hf : ∀ i, i < l.size → ∀ x y, x < (l.q i).value → y < (l.q i).value → f x y (l.q i) = .ok (g i x y))
+    (hg : ∀ i, i < l.size → ∀ x y, x < (l.q i).value → y < (l.q i).value → g i x y < (l.q i).value)
+    {a b : RnsPoly} (ha : RnsCanon l a) (hb : RnsCanon l b) :
+    ∃ r, rnsZip l a b f = .ok r ∧ RnsCanon l r ∧ ∀ i, i < l.size → ∀ j, j < l.n →
+      (r.getD i #[]).getD j 0 = g i ((a.getD i #[]).getD j 0) ((b.getD i #[]).getD j 0) := by
+  refine ⟨_, c01o_rnsZip_ok g (fun i hi j hj => ?_), ⟨c01o_zipVal_size _ _ _ _, fun i hi => ⟨?_, fun j hj => ?_⟩⟩,
+    fun i hi j hj => ?_⟩
+  · rw [(ha.2 i hi).1] at hj
+    exact hf i hi _ _ ((ha.2 i hi).2 j hj) ((hb.2 i hi).2 j hj)
+  · rw [c01o_zipVal_comp_size _ _ _ _ hi]; exact (ha.2 i hi).1
+  · rw [c01o_zipVal_coeff _ _ _ _ hi (by rw [(ha.2 i hi).1]; exact hj)]
+    exact hg i hi _ _ ((ha.2 i hi).2 j hj) ((hb.2 i hi).2 j hj)
+  · rw [c01o_zipVal_coeff _ _ _ _ hi (by rw [(ha.2 i hi).1]; exact hj)]
+
+theorem c02v_rnsAdd_spec {l : Level} (hq : c02v_QsWF l) {a b : RnsPoly} (ha : RnsCanon l a) (hb : RnsCanon l b) :
+    ∃ r, rnsAdd l a b = .ok r ∧ RnsCanon l r ∧ ∀ i, i < l.size → ∀ j, j < l.n →
+      (r.getD i #[]).getD j 0 = ((a.getD i #[]).getD j 0 + (b.getD i #[]).getD j 0) % (l.q i).value :=
+  c02v_rnsZip_spec (fun i x y => (x + y) % (l.q i).value)
+    (fun i hi _ _ hx hy => addMod_exact (hq i hi) hx hy)
+    (fun i hi _ _ _ _ => Nat.mod_lt _ (by have := (hq i hi).two_le; omega)) ha hb
+
+theorem c02v_rnsSub_spec {l : Level} (hq : c02v_QsWF l) {a b : RnsPoly} (ha : RnsCanon l a) (hb : RnsCanon l b) :
+    ∃ r, rnsSub l a b = .ok r ∧ RnsCanon l r ∧ ∀ i, i < l.size → ∀ j, j < l.n →
+      (r.getD i #[]).getD j 0 = ((a.getD i #[]).getD j 0 + (l.q i).value - (b.getD i #[]).getD j 0) % (l.q i).value :=
+  c02v_rnsZip_spec (fun i x y => (x + (l.q i).value - y) % (l.q i).value)
+    (fun i hi _ _ hx hy => subMod_exact (hq i hi) hx hy)
+    (fun i hi _ _ _ _ => Nat.mod_lt _ (by have := (hq i hi).two_le; omega)) ha hb
+
+theorem c02v_rnsDyadic_spec {l : Level} (hq : c02v_QsWF l) {a b : RnsPoly} (ha : RnsCanon l a) (hb : RnsCanon l b) :
+    ∃ r, rnsDyadic l a b = .ok r ∧ RnsCanon l r ∧ ∀ i, i < l.size → ∀ j, j < l.n →
+      (r.getD i #[]).getD j 0 = ((a.getD i #[]).getD j 0 * (b.getD i #[]).getD j 0) % (l.q i).value :=
+  c02v_rnsZip_spec (fun i x y => (x * y) % (l.q i).value)
+    (fun i hi _ _ hx hy => mulMod_exact (hq i hi) (by have := (hq i hi).lt; omega) (by have := (hq i hi).lt; omega))
+    (fun i hi _ _ _ _ => Nat.mod_lt _ (by have := (hq i hi).two_le; omega)) ha hb
+
+/-- residue (i, j) of the result polynomial described by one term of `translateShape` -/
+def c02v_trRes (l : Level) (a b : Ct) (sub : Bool) : TrTerm → Nat → Nat → Nat
+  | .both k, i, j => if sub then (a.c02v_res k i j + (l.q i).value - b.c02v_res k i j) % (l.q i).value
+                     else (a.c02v_res k i j + b.c02v_res k i j) % (l.q i).value
+  | .left k, i, j => a.c02v_res k i j
+  | .right k, i, j => if sub then ((l.q i).value - b.c02v_res k i j) % (l.q i).value else b.c02v_res k i j
+
+/-- the term of `translateShape` at position k -/
+def c02v_trTerm (n1 n2 k : Nat) : TrTerm :=
+  if k < min n1 n2 then .both k else if n1 > n2 then .left k else .right k
+
+theorem c02v_shape_getD (n1 n2 : Nat) {k : Nat} (hk : k < max n1 n2) (d : TrTerm) :
+    (translateShape n1 n2).getD k d = c02v_trTerm n1 n2 k := by
+  unfold translateShape c02v_trTerm
+  rw [List.getD_eq_getElem?_getD, List.getElem?_eq_getElem (by simpa using hk), Option.getD_some]
+  simp only [List.getElem_map, List.getElem_range]
+
+theorem c02v_shape_len (n1 n2 : Nat) : (translateShape n1 n2).length = max n1 n2 := by
+  simp [translateShape]
+
+/-- the per-term step of `ctTranslate` succeeds with a canonical polynomial with the residues of `c02v_trRes` -/
+theorem c02v_tr_step {l : Level} (hq : c02v_QsWF l) {a b : Ct} (ha : c02v_PolysCanon l a) (hb : c02v_PolysCanon l b) (sub : Bool)
+    {k : Nat} (hk : k < max a.polys.size b.polys.size) :
+    ∃ y, (match c02v_trTerm a.polys.size b.polys.size k with
+        | .both i => if sub then rnsSub l (a.polys.getD i #[]) (b.polys.getD i #[]) else rnsAdd l (a.polys.getD i #[]) (b.polys.getD i #[])
+        | .left i => pure (a.polys.getD i #[])
+        | .right i => if sub then rnsNeg l (b.polys.getD i #[]) else pure (b.polys.getD i #[])) = Except.ok y ∧
+      RnsCanon l y ∧ ∀ i, i < l.size → ∀ j, j < l.n →
+        (y.getD i #[]).getD j 0 = c02v_trRes l a b sub (c02v_trTerm a.polys.size b.polys.size k) i j := by
+  unfold c02v_trTerm
+  by_cases h1 : k < min a.polys.size b.polys.size
+  · rw [if_pos h1]
+    have ca := ha.canon k (by omega)
+    have cb := hb.canon k (by omega)
+    cases sub
+    · obtain ⟨y, h, c, v⟩ := c02v_rnsAdd_spec hq ca cb
+      exact ⟨y, by simpa using h, c, fun i hi j hj => by simpa [c02v_trRes, Ct.c02v_res] using v i hi j hj⟩
+    · obtain ⟨y, h, c, v⟩ := c02v_rnsSub_spec hq ca cb
+      exact ⟨y, by simpa using h, c, fun i hi j hj => by simpa [c02v_trRes, Ct.c02v_res] using v i hi j hj⟩
+  · rw [if_neg h1]
+    by_cases h2 : a.polys.size > b.polys.size
+    · rw [if_pos h2]
+      exact ⟨_, rfl, ha.canon k (by omega), fun i hi j hj => rfl⟩
+    · rw [if_neg h2]
+      have cb := hb.canon k (by omega)
+      cases sub
+      · exact ⟨_, rfl, cb, fun i hi j hj => by simp [c02v_trRes, Ct.c02v_res]⟩
+      · obtain ⟨y, h, c, v⟩ := c02v_rnsNeg_spec hq cb
+        exact ⟨y, by simpa using h, c, fun i hi j hj => by simpa [c02v_trRes, Ct.c02v_res] using v i hi j hj⟩
+
+
+theorem c02v_polyVal_congr {S : Type} [CommRing S] {n : Nat} (e : Nat → S) {p r : Array Nat}
+    (hr : ∀ j, j < n → r.getD j 0 = p.getD j 0) : c02v_polyVal e n r = c02v_polyVal e n p := by
+  unfold c02v_polyVal
+  exact Finset.sum_congr rfl (fun j hj => by rw [hr j (Finset.mem_range.mp hj)])
+
+theorem c02v_polyVal_add {S : Type} [CommRing S] {q n : Nat} (hS : ((q : Nat) : S) = 0) (e : Nat → S) {p p' r : Array Nat}
+    (hr : ∀ j, j < n → r.getD j 0 = (p.getD j 0 + p'.getD j 0) % q) :
+    c02v_polyVal e n r = c02v_polyVal e n p + c02v_polyVal e n p' := by
+  unfold c02v_polyVal
+  rw [← Finset.sum_add_distrib]
+  refine Finset.sum_congr rfl (fun j hj => ?_)
+  rw [hr j (Finset.mem_range.mp hj), c02v_mod_cast hS]
+  push_cast; ring
+
+theorem c02v_polyVal_sub {S : Type} [CommRing S] {q n : Nat} (hS : ((q : Nat) : S) = 0) (e : Nat → S) {p p' r : Array Nat}
+    (hp' : ∀ j, j < n → p'.getD j 0 < q)
+    (hr : ∀ j, j < n → r.getD j 0 = (p.getD j 0 + q - p'.getD j 0) % q) :
+    c02v_polyVal e n r = c02v_polyVal e n p - c02v_polyVal e n p' := by
+  unfold c02v_polyVal
+  rw [← Finset.sum_sub_distrib]
+  refine Finset.sum_congr rfl (fun j hj => ?_)
+  have hj := Finset.mem_range.mp hj
+  rw [hr j hj, c02v_mod_cast hS, Nat.cast_sub (by have := hp' j hj; omega)]
+  push_cast; rw [hS]; ring
+
+
+/-! ## V3  dyadic product -/
+
+theorem c02v_rnsZero_spec {l : Level} (hq : c02v_QsWF l) :
+    RnsCanon l (rnsZero l) ∧ ∀ i, i < l.size → ∀ j, j < l.n → ((rnsZero l).getD i #[]).getD j 0 = 0 := by
+  have hget : ∀ i, i < l.size → (rnsZero l).getD i #[] = Array.replicate l.n 0 := by
+    intro i hi; simp [rnsZero, Array.getD, hi]
+  have hget2 : ∀ j, j < l.n → (Array.replicate l.n 0).getD j 0 = 0 := by
+    intro j hj; simp [Array.getD, hj]
+  refine ⟨⟨by simp [rnsZero], fun i hi => ⟨by rw [hget i hi]; simp, fun j hj => ?_⟩⟩, fun i hi j hj => ?_⟩
+  · rw [hget i hi, hget2 j hj]; have := (hq i hi).two_le; omega
+  · rw [hget i hi, hget2 j hj]
+
+/-- the accumulation loop of one output polynomial: Σ over the visited pairs of dyadic products, reduced -/
+theorem c02v_mulFold {l : Level} (hq : c02v_QsWF l) {a b : Ct}
+    (ha : ∀ k, k < a.polys.size → RnsCanon l (a.polys.getD k #[])) (hb : ∀ k, k < b.polys.size → RnsCanon l (b.polys.getD k #[])) :
+    ∀ (ps : List (Nat × Nat)) (acc : RnsPoly), RnsCanon l acc → (∀ p ∈ ps, p.1 < a.polys.size ∧ p.2 < b.polys.size) →
+    ∃ r, ps.foldlM (fun acc p => do
+        let pr ← rnsDyadic l (a.polys.getD p.1 #[]) (b.polys.getD p.2 #[])
+        rnsAdd l acc pr) acc = .ok r ∧ RnsCanon l r ∧ ∀ i, i < l.size → ∀ j, j < l.n →
+      (r.getD i #[]).getD j 0
+        = ((acc.getD i #[]).getD j 0 + (ps.map (fun p => a.c02v_res p.1 i j * b.c02v_res p.2 i j)).sum) % (l.q i).value := by
+  intro ps
+  induction ps with
+  | nil =>
+    intro acc hacc _
+    refine ⟨acc, rfl, hacc, fun i hi j hj => ?_⟩
+    simp only [List.map_nil, List.sum_nil, Nat.add_zero]
+    exact (Nat.mod_eq_of_lt ((hacc.2 i hi).2 j hj)).symm
+  | cons p ps ih =>
+    intro acc hacc hmem
+    obtain ⟨h1, h2⟩ := hmem p (by simp)
+    obtain ⟨pr, hpr, cpr, vpr⟩ := c02v_rnsDyadic_spec hq (ha _ h1) (hb _ h2)
+    obtain ⟨acc', hacc', cacc', vacc'⟩ := c02v_rnsAdd_spec hq hacc cpr
+    obtain ⟨r, hr, cr, vr⟩ := ih acc' cacc' (fun p' hp' => hmem p' (by simp [hp']))
+    refine ⟨r, ?_, cr, fun i hi j hj => ?_⟩
+    · rw [List.foldlM_cons, hpr]
+      simp only [bind, Except.bind]
+      rw [hacc']
+      exact hr
+    · rw [vr i hi j hj, vacc' i hi j hj, vpr i hi j hj]
+      simp only [List.map_cons, List.sum_cons]
+      unfold Ct.c02v_res
+      rw [Nat.mod_add_mod, Nat.add_assoc, Nat.add_comm ((acc.getD i #[]).getD j 0), Nat.add_assoc, Nat.mod_add_mod]
+      congr 1
+      omega
+
+theorem c02v_polyVal_mul {S : Type} [CommRing S] (e : Nat → S) {n : Nat}
+    (he : ∀ j j', j < n → j' < n → e j * e j' = if j = j' then e j else 0) (x y : Array Nat) :
+    ∑ j ∈ range n, (((x.getD j 0 : Nat) : S) * ((y.getD j 0 : Nat) : S)) * e j = c02v_polyVal e n x * c02v_polyVal e n y := by
+  unfold c02v_polyVal
+  rw [Finset.sum_mul_sum]
+  refine Finset.sum_congr rfl (fun j hj => ?_)
+  have hj' := Finset.mem_range.mp hj
+  have : ∀ j' ∈ range n, ((x.getD j 0 : Nat) : S) * e j * (((y.getD j' 0 : Nat) : S) * e j')
+      = if j = j' then ((x.getD j 0 : Nat) : S) * ((y.getD j' 0 : Nat) : S) * e j else 0 := by
+    intro j' hj2
+    have := he j j' hj' (Finset.mem_range.mp hj2)
+    split
+    · rename_i h; rw [if_pos h] at this
+      calc _ = ((x.getD j 0 : Nat) : S) * ((y.getD j' 0 : Nat) : S) * (e j * e j') := by ring
+        _ = _ := by rw [this]
+    · rename_i h; rw [if_neg h] at this
+      calc _ = ((x.getD j 0 : Nat) : S) * ((y.getD j' 0 : Nat) : S) * (e j * e j') := by ring
+        _ = _ := by rw [this]; ring
+  rw [Finset.sum_congr rfl this, Finset.sum_ite_eq, if_pos hj]
+
+theorem c02v_sum_list {S : Type} [CommRing S] (n : Nat) (F : Nat × Nat → Nat → S) :
+    ∀ ps : List (Nat × Nat), ∑ j ∈ range n, (ps.map (fun p => F p j)).sum = (ps.map (fun p => ∑ j ∈ range n, F p j)).sum
+  | [] => by simp
+  | p :: ps => by
+    simp only [List.map_cons, List.sum_cons, Finset.sum_add_distrib, c02v_sum_list n F ps]
+
+/-- an RNS component whose residues are the reduced sums of position-wise products has the value Σ (value · value) -/
+theorem c02v_polyVal_mulsum {S : Type} [CommRing S] {q n : Nat} (hS : ((q : Nat) : S) = 0) (e : Nat → S)
+    (he : ∀ j j', j < n → j' < n → e j * e j' = if j = j' then e j else 0)
+    (X Y : Nat → Array Nat) (ps : List (Nat × Nat)) {r : Array Nat}
+    (hr : ∀ j, j < n → r.getD j 0 = (ps.map (fun p => (X p.1).getD j 0 * (Y p.2).getD j 0)).sum % q) :
+    c02v_polyVal e n r = (ps.map (fun p => c02v_polyVal e n (X p.1) * c02v_polyVal e n (Y p.2))).sum := by
+  have h1 : c02v_polyVal e n r = ∑ j ∈ range n,
+      (ps.map (fun p => (((X p.1).getD j 0 : Nat) : S) * (((Y p.2).getD j 0 : Nat) : S) * e j)).sum := by
+    unfold c02v_polyVal
+    refine Finset.sum_congr rfl (fun j hj => ?_)
+    rw [hr j (Finset.mem_range.mp hj), c02v_mod_cast hS, Nat.cast_list_sum, List.map_map,
+      ← List.sum_map_mul_right]
+    congr 1
+    apply List.map_congr_left
+    intro p _
+    simp only [Function.comp, Nat.cast_mul]
+  rw [h1, c02v_sum_list n (fun p j => (((X p.1).getD j 0 : Nat) : S) * (((Y p.2).getD j 0 : Nat) : S) * e j) ps]
+  congr 1
+  apply List.map_congr_left
+  intro p _
+  exact c02v_polyVal_mul e he _ _
+
+
+/-- core of V2 (polynomial part only): `ctTranslate` (add / sub of canonical ciphertexts of ANY two sizes, same representation and correction factor)
+    succeeds; the result has size max(n1, n2), is canonical, and polynomial k is `a_k ± b_k` where both exist, `a_k` beyond the
+    size of b, and `b_k` resp. `−b_k` (subtraction) beyond the size of a -/
+theorem c02v_ctTranslate_core {l : Level} (hq : c02v_QsWF l) {a b : Ct} (ha : c02v_PolysCanon l a) (hb : c02v_PolysCanon l b) (sub : Bool)
+    (hntt : a.ntt = b.ntt) (hcf : a.cf = b.cf) :
+    ∃ r, ctTranslate l a b sub = .ok r ∧ c02v_PolysCanon l r ∧ r.polys.size = max a.polys.size b.polys.size ∧
+      r.ntt = a.ntt ∧ r.cf = a.cf ∧
+      ∀ k, k < max a.polys.size b.polys.size → ∀ i, i < l.size → ∀ j, j < l.n →
+        r.c02v_res k i j =
+          if k < a.polys.size ∧ k < b.polys.size then
+            (if sub then (a.c02v_res k i j + (l.q i).value - b.c02v_res k i j) % (l.q i).value
+             else (a.c02v_res k i j + b.c02v_res k i j) % (l.q i).value)
+          else if k < a.polys.size then a.c02v_res k i j
+          else (if sub then ((l.q i).value - b.c02v_res k i j) % (l.q i).value else b.c02v_res k i j) := by
+  obtain ⟨ys, hys, hall⟩ := c02v_mapM_ok
+    (fun (t : TrTerm) (y : RnsPoly) => RnsCanon l y ∧ ∀ i, i < l.size → ∀ j, j < l.n →
+      (y.getD i #[]).getD j 0 = c02v_trRes l a b sub t i j)
+    (fun t => match t with
+      | .both i => if sub then rnsSub l (a.polys.getD i #[]) (b.polys.getD i #[]) else rnsAdd l (a.polys.getD i #[]) (b.polys.getD i #[])
+      | .left i => pure (a.polys.getD i #[])
+      | .right i => if sub then rnsNeg l (b.polys.getD i #[]) else pure (b.polys.getD i #[]))
+    (translateShape a.polys.size b.polys.size) (fun t ht => by
+      obtain ⟨k, hk, rfl⟩ := List.mem_iff_getElem.mp ht
+      rw [c02v_shape_len] at hk
+      have e := c02v_shape_getD a.polys.size b.polys.size hk (.both 0)
+      rw [List.getD_eq_getElem?_getD, List.getElem?_eq_getElem (by rw [c02v_shape_len]; exact hk), Option.getD_some] at e
+      rw [e]
+      exact c02v_tr_step hq ha hb sub hk)
+  have hlen : ys.length = max a.polys.size b.polys.size := by rw [← hall.length_eq, c02v_shape_len]
+  have hk : ∀ k, k < max a.polys.size b.polys.size → RnsCanon l (ys.toArray.getD k #[]) ∧ ∀ i, i < l.size → ∀ j, j < l.n →
+      ((ys.toArray.getD k #[]).getD i #[]).getD j 0
+        = c02v_trRes l a b sub (c02v_trTerm a.polys.size b.polys.size k) i j := by
+    intro k hk
+    have := c02v_forall2_getD hall (.both 0) #[] (k := k) (by rw [c02v_shape_len]; exact hk)
+    rw [c02v_shape_getD _ _ hk, ← c02v_toArray_getD] at this
+    exact this
+  have h2a := ha.two_le; have h2b := hb.two_le; have h16a := ha.le16; have h16b := hb.le16
+  refine ⟨{ a with polys := ys.toArray }, ?_, ⟨?_, ?_, ?_⟩, ?_, rfl, rfl, ?_⟩
+  · unfold ctTranslate
+    rw [if_neg (not_not.mpr hntt), if_neg (not_not.mpr hcf)]
+    erw [hys]; rfl
+  · simp only [List.size_toArray, hlen]; omega
+  · simp only [List.size_toArray, hlen]; omega
+  · intro k hk'
+    exact (hk k (by simpa [hlen] using hk')).1
+  · simp [hlen]
+  · intro k hk' i hi j hj
+    have := (hk k hk').2 i hi j hj
+    unfold Ct.c02v_res
+    rw [this]
+    unfold c02v_trTerm
+    by_cases h1 : k < a.polys.size <;> by_cases h2 : k < b.polys.size
+    · rw [if_pos (by omega), if_pos ⟨h1, h2⟩]; rfl
+    · rw [if_neg (by omega), if_pos (by omega), if_neg (by tauto), if_pos h1]; rfl
+    · rw [if_neg (by omega), if_neg (by omega), if_neg (by tauto), if_neg h1]; rfl
+    · omega
+
+
+/-- V2 refusals: operands in different representations are refused; different correction factors are not handled by
+    `ctTranslate` (they go through `ctTranslateBalanced`) -/
+theorem c02v_ctTranslate_refuse_ntt (l : Level) (a b : Ct) (sub : Bool) (h : a.ntt ≠ b.ntt) :
+    ctTranslate l a b sub = .error .refused := by
+  unfold ctTranslate
+  rw [if_pos h]
+
+theorem c02v_ctTranslate_error_cf (l : Level) (a b : Ct) (sub : Bool) (h : a.ntt = b.ntt) (hcf : a.cf ≠ b.cf) :
+    ctTranslate l a b sub = .error .other := by
+  unfold ctTranslate
+  rw [if_neg (not_not.mpr h), if_pos hcf]
+
+/-- core of the V2 phase theorem: in every commutative ring in which `q_i = 0`, the phase of the result of `ctTranslate` is the sum resp. difference
+    of the phases — for all pairs of sizes (this is `translate_phase` of C02K instantiated with the model's output) -/
+theorem c02v_ctTranslate_phase_core {S : Type} [CommRing S] {l : Level} (hq : c02v_QsWF l) {a b r : Ct} (ha : c02v_PolysCanon l a)
+    (hb : c02v_PolysCanon l b) {sub : Bool} (hr : ctTranslate l a b sub = .ok r)
+    {i : Nat} (hi : i < l.size) (hS : (((l.q i).value : Nat) : S) = 0) (e : Nat → S) (s : S) :
+    c02v_phase l r i e s = if sub then c02v_phase l a i e s - c02v_phase l b i e s
+      else c02v_phase l a i e s + c02v_phase l b i e s := by
+  have hntt : a.ntt = b.ntt := by
+    by_contra h; rw [c02v_ctTranslate_refuse_ntt l a b sub h] at hr; cases hr
+  have hcf : a.cf = b.cf := by
+    by_contra h; rw [c02v_ctTranslate_error_cf l a b sub hntt h] at hr; cases hr
+  obtain ⟨r', hr', _, hsz, _, _, hres⟩ := c02v_ctTranslate_core hq ha hb sub hntt hcf
+  rw [hr] at hr'
+  obtain rfl := Except.ok.inj hr'
+  unfold c02v_phase
+  rw [hsz, ← translate_phase]
+  unfold ctPhase
+  refine Finset.sum_congr rfl (fun k hk => ?_)
+  have hk := Finset.mem_range.mp hk
+  beta_reduce
+  rw [c02k_tr_getD _ _ _ _ _ hk]
+  congr 1
+  have hres' := fun j hj => hres k hk i hi j hj
+  unfold Ct.c02v_res at hres'
+  by_cases h1 : k < a.polys.size <;> by_cases h2 : k < b.polys.size
+  · simp only [h1, h2, and_self, if_true] at hres' ⊢
+    cases sub
+    · simp only [Bool.false_eq_true, if_false] at hres' ⊢
+      exact c02v_polyVal_add hS e hres'
+    · simp only [if_true] at hres' ⊢
+      rw [c02v_polyVal_sub hS e (fun j hj => ((hb.canon k h2).2 i hi).2 j hj) hres']; ring
+  · simp only [h1, h2, and_false, if_true, if_false] at hres' ⊢
+    rw [c02v_polyVal_congr e hres']
+    cases sub <;> simp
+  · simp only [h1, h2, false_and, if_true, if_false] at hres' ⊢
+    cases sub
+    · simp only [Bool.false_eq_true, if_false] at hres' ⊢
+      rw [c02v_polyVal_congr e hres']; ring
+    · simp only [if_true] at hres' ⊢
+      rw [c02v_polyVal_neg hS e (fun j hj => ((hb.canon k h2).2 i hi).2 j hj) hres']; ring
+  · omega
+
+/-! ## V4  BGV correction factors -/
+
+/-- one iteration of the balancing loop, recording that a replaced `e1` passed the `gcd = 1` test
+    (`c02k_loop_step` of C02K forgets this) -/
+theorem c02v_loop_step {t : Modulus} (ht : t.WF) (fuel : Nat) (prevA a prevB b : Int) (e1 e2 : Nat) (sum : Int)
+    (ha : a ≠ 0) (haa : (Int.tmod prevA a).natAbs < 2^64)
+    (hb1 : -(2^63 : Int) ≤ prevB - Int.tdiv prevA a * b) (hb2 : prevB - Int.tdiv prevA a * b < 2^63) :
+    ∃ e1' e2' sum', balanceLoop t (fuel + 1) prevA a prevB b e1 e2 sum
+        = balanceLoop t fuel a (Int.tmod prevA a) b (prevB - Int.tdiv prevA a * b) e1' e2' sum' ∧
+      ((e1' = e1 ∧ e2' = e2) ∨
+       (e1' = c02k_red (Int.tmod prevA a) t.value ∧ e2' = c02k_red (prevB - Int.tdiv prevA a * b) t.value ∧
+        gcdU64 (c02k_red (Int.tmod prevA a) t.value) t.value = 1)) := by
+  have hbb : (prevB - Int.tdiv prevA a * b).natAbs < 2^64 := by omega
+  have hle1 : (Int.tmod prevA a).natAbs % t.value ≤ t.value :=
+    (Nat.mod_lt _ (by have := ht.two_le; omega)).le
+  have hle2 : (prevB - Int.tdiv prevA a * b).natAbs % t.value ≤ t.value :=
+    (Nat.mod_lt _ (by have := ht.two_le; omega)).le
+  rw [balanceLoop, if_neg ha]
+  simp only [bind, Except.bind, ckI64_ok hb1 hb2, barrett64_exact ht haa, barrett64_exact ht hbb]
+  have hra : ∀ (h : Int.tmod prevA a < 0), (t.value - (Int.tmod prevA a).natAbs % t.value) % t.value
+      = c02k_red (Int.tmod prevA a) t.value := fun h => by unfold c02k_red; rw [if_pos h]
+  have hra' : ∀ (h : ¬ Int.tmod prevA a < 0), (Int.tmod prevA a).natAbs % t.value
+      = c02k_red (Int.tmod prevA a) t.value := fun h => by unfold c02k_red; rw [if_neg h]
+  have hrb : ∀ (h : prevB - Int.tdiv prevA a * b < 0),
+      (t.value - (prevB - Int.tdiv prevA a * b).natAbs % t.value) % t.value
+      = c02k_red (prevB - Int.tdiv prevA a * b) t.value := fun h => by unfold c02k_red; rw [if_pos h]
+  have hrb' : ∀ (h : ¬ prevB - Int.tdiv prevA a * b < 0), (prevB - Int.tdiv prevA a * b).natAbs % t.value
+      = c02k_red (prevB - Int.tdiv prevA a * b) t.value := fun h => by unfold c02k_red; rw [if_neg h]
+  have fin : ∀ am bm : Nat, ∀ ns : Int, ∀ c d : Prop, ∀ _ : Decidable (c ∧ d), ∃ e1' e2' sum',
+      balanceLoop t fuel a (Int.tmod prevA a) b (prevB - Int.tdiv prevA a * b)
+        (if c ∧ d then if ns < sum then (am, bm, ns) else (e1, e2, sum) else (e1, e2, sum)).1
+        (if c ∧ d then if ns < sum then (am, bm, ns) else (e1, e2, sum) else (e1, e2, sum)).2.1
+        (if c ∧ d then if ns < sum then (am, bm, ns) else (e1, e2, sum) else (e1, e2, sum)).2.2
+      = balanceLoop t fuel a (Int.tmod prevA a) b (prevB - Int.tdiv prevA a * b) e1' e2' sum' ∧
+      ((e1' = e1 ∧ e2' = e2) ∨ (e1' = am ∧ e2' = bm ∧ d)) := by
+    intro am bm ns c d _
+    refine ⟨_, _, _, rfl, ?_⟩
+    split_ifs with h1 h2
+    · exact Or.inr ⟨rfl, rfl, h1.2⟩
+    · exact Or.inl ⟨rfl, rfl⟩
+    · exact Or.inl ⟨rfl, rfl⟩
+  by_cases hn : Int.tmod prevA a < 0 <;> by_cases hn' : prevB - Int.tdiv prevA a * b < 0 <;>
+    simp only [hn, hn', if_true, if_false, negateMod_exact ht hle1, negateMod_exact ht hle2, pure, Except.pure]
+  · rw [hra hn, hrb hn']; exact fin _ _ _ _ _ _
+  · rw [hra hn, hrb' hn']; exact fin _ _ _ _ _ _
+  · rw [hra' hn, hrb hn']; exact fin _ _ _ _ _ _
+  · rw [hra' hn, hrb' hn']; exact fin _ _ _ _ _ _
+
+/-- loop invariants missing from `c02k_loop_spec`: the second multiplier stays reduced and the first stays a unit -/
+theorem c02v_loop_inv {t : Modulus} (ht : t.WF) :
+    ∀ (fuel : Nat) (prevA a prevB b : Int) (e1 e2 : Nat) (sum : Int) (r : Nat × Nat),
+    a.natAbs < 2^64 → e2 < t.value →
+    balanceLoop t fuel prevA a prevB b e1 e2 sum = .ok r →
+    r.2 < t.value ∧ (Nat.Coprime e1 t.value → Nat.Coprime r.1 t.value) := by
+  have htpos : 0 < t.value := by have := ht.two_le; omega
+  have htlt := ht.lt
+  intro fuel
+  induction fuel with
+  | zero =>
+    intro prevA a prevB b e1 e2 sum r _ _ h
+    rw [balanceLoop] at h; cases h
+  | succ fuel ih =>
+    intro prevA a prevB b e1 e2 sum r hab he2 h
+    by_cases ha : a = 0
+    · subst ha
+      rw [c02k_loop_zero] at h
+      injection h with h
+      subst h
+      exact ⟨he2, fun hc => hc⟩
+    · by_cases hb : (-(2^63 : Int) ≤ prevB - Int.tdiv prevA a * b ∧ prevB - Int.tdiv prevA a * b < 2^63)
+      · have haa : (Int.tmod prevA a).natAbs < 2^64 := by
+          rw [Int.natAbs_tmod]
+          have : prevA.natAbs % a.natAbs < a.natAbs := Nat.mod_lt _ (by omega)
+          omega
+        obtain ⟨e1', e2', sum', heq, hcase⟩ := c02v_loop_step ht fuel prevA a prevB b e1 e2 sum ha haa hb.1 hb.2
+        rw [heq] at h
+        rcases hcase with ⟨rfl, rfl⟩ | ⟨rfl, rfl, hg⟩
+        · exact ih _ _ _ _ _ _ _ r haa he2 h
+        · obtain ⟨i1, i2⟩ := ih _ _ _ _ _ _ _ r haa (c02k_red_lt htpos _) h
+          have hlt := c02k_red_lt htpos (Int.tmod prevA a)
+          rw [gcdU64_exact (by omega) (by omega)] at hg
+          exact ⟨i1, fun _ => i2 hg⟩
+      · rw [c02k_loop_overflow t fuel prevA a prevB b e1 e2 sum ha hb] at h
+        cases h
+
+
+/-- what `balance_spec` of C02K does not state: both multipliers are reduced, a successful call certifies that `f1` is a unit,
+    and if `f2` is a unit too then so are `e1` and the common factor `f` -/
+theorem c02v_balance_inv {t : Modulus} (ht : t.WF) {f1 f2 f e1 e2 : Nat} (h1 : f1 < t.value) (h2 : f2 < t.value)
+    (h : balanceCorrectionFactors f1 f2 t = .ok (f, e1, e2)) :
+    e1 < t.value ∧ e2 < t.value ∧ Nat.Coprime f1 t.value ∧
+      (Nat.Coprime f2 t.value → Nat.Coprime e1 t.value ∧ Nat.Coprime f t.value) := by
+  have h2le := ht.two_le
+  have hlt := ht.lt
+  have htpos : 0 < t.value := by omega
+  have hinv := tryInvert_spec_partial (v := f1) h2le hlt (by omega) (by omega)
+  unfold balanceCorrectionFactors at h
+  by_cases hc : f1 ≠ 0 ∧ Nat.gcd f1 t.value = 1
+  · obtain ⟨inv, hti, hinvlt, hinv1⟩ := hinv.1 hc
+    rw [hti] at h
+    simp only [bind, Except.bind, mulMod_exact ht (x := inv) (y := f2) (by omega) (by omega)] at h
+    split at h
+    · cases h
+    · rename_i r hL
+      obtain ⟨hr1, _⟩ := c02k_loop_spec ht ((inv * f2 % t.value : Nat) : Int) 200 _ _ _ _ _ _ _ r
+        (by simp only [Int.natAbs_natCast]; have := Nat.mod_lt (inv * f2) htpos; omega)
+        (by simp [Int.ModEq]) (by simp [Int.ModEq]) (Nat.mod_lt _ htpos) (by simp [Int.ModEq]) hL
+      obtain ⟨hr2, hr3⟩ := c02v_loop_inv ht 200 _ _ _ _ _ _ _ r
+        (by simp only [Int.natAbs_natCast]; have := Nat.mod_lt (inv * f2) htpos; omega) (by omega) hL
+      rw [mulMod_exact ht (x := r.1) (y := f1) (by omega) (by omega)] at h
+      simp only [pure, Except.pure, Except.ok.injEq, Prod.mk.injEq] at h
+      obtain ⟨hf, he1, he2⟩ := h
+      subst he1 he2
+      refine ⟨hr1, hr2, hc.2, fun hc2 => ?_⟩
+      have hci : Nat.Coprime inv t.value := by
+        apply Nat.coprime_of_mul_modEq_one f1
+        unfold Nat.ModEq; rw [hinv1, Nat.mod_eq_of_lt (by omega)]
+      have hcr : Nat.Coprime (inv * f2 % t.value) t.value := by
+        unfold Nat.Coprime
+        rw [← Nat.gcd_rec, Nat.gcd_comm]
+        exact Nat.Coprime.mul_left hci hc2
+      have hce := hr3 hcr
+      refine ⟨hce, ?_⟩
+      rw [← hf]
+      unfold Nat.Coprime
+      rw [← Nat.gcd_rec, Nat.gcd_comm]
+      exact Nat.Coprime.mul_left hce hc.2
+  · rw [hinv.2 (by by_cases h0 : f1 = 0; exact Or.inl h0; exact Or.inr (fun hg => hc ⟨h0, hg⟩))] at h
+    cases h
+
+/-- refusal of the balancing: a first factor that is not a unit modulo t -/
+theorem c02v_balance_refuse {t : Modulus} (ht : t.WF) {f1 : Nat} (f2 : Nat) (h1 : f1 < 2^63)
+    (hc : ¬ Nat.Coprime f1 t.value) : balanceCorrectionFactors f1 f2 t = .error .refused := by
+  have h2le := ht.two_le
+  have hlt := ht.lt
+  have hinv := tryInvert_spec_partial (v := f1) h2le hlt (by omega) (by omega)
+  unfold balanceCorrectionFactors
+  rw [hinv.2 (Or.inr hc)]
+  rfl
+
+
+theorem c02v_compsMap_spec {l : Level} (hq : c02v_QsWF l) {e : Nat} (he : e < 2^64) {a : RnsPoly} (ha : RnsCanon l a) :
+    ∃ r, compsMap l.qs a (fun x m => mulMod x e m) = .ok r ∧ RnsCanon l r ∧ ∀ i, i < l.size → ∀ j, j < l.n →
+      (r.getD i #[]).getD j 0 = ((a.getD i #[]).getD j 0 * e) % (l.q i).value := by
+  have hok := c01o_foldlM_push (List.range l.size) (fun i => mapM' (a.getD i #[]) (fun x => mulMod x e (l.q i)))
+    (fun i => (a.getD i #[]).map (fun x => (x * e) % (l.q i).value))
+    (fun i hi => by
+      have hi := List.mem_range.mp hi
+      apply mapM'_ok
+      intro x hx
+      apply mulMod_exact (hq i hi) _ he
+      have := mem_lt_of_getD (B := (l.q i).value) (fun j hj => (ha.2 i hi).2 j (by rw [← (ha.2 i hi).1]; exact hj)) x hx
+      have := (hq i hi).lt
+      omega) #[]
+  refine ⟨_, hok, ?_⟩
+  have hget : ∀ i, i < l.size → (#[] ++ ((List.range l.size).map
+      (fun i => (a.getD i #[]).map (fun x => (x * e) % (l.q i).value))).toArray).getD i #[]
+        = (a.getD i #[]).map (fun x => (x * e) % (l.q i).value) := by
+    intro i hi
+    rw [Array.empty_append]
+    exact getD_rangeMap' _ _ _ hi
+  refine ⟨⟨by simp, fun i hi => ?_⟩, fun i hi j hj => ?_⟩
+  · rw [hget i hi]
+    refine ⟨by rw [Array.size_map]; exact (ha.2 i hi).1, fun j hj => ?_⟩
+    rw [c10i_getD_map_lt _ _ (by rw [(ha.2 i hi).1]; exact hj)]
+    exact Nat.mod_lt _ (by have := (hq i hi).two_le; omega)
+  · rw [hget i hi, c10i_getD_map_lt _ _ (by rw [(ha.2 i hi).1]; exact hj)]
+
+/-- the `scale` step of `ctTranslateBalanced`: every residue times `e`, correction factor set to `f` -/
+def c02v_scale (l : Level) (f : Nat) (c : Ct) (e : Nat) : R Ct := do
+  let ps ← c.polys.toList.mapM (fun p => compsMap l.qs p (fun x m => mulMod x e m))
+  pure { c with polys := ps.toArray, cf := f }
+
+theorem c02v_scale_spec {l : Level} (hq : c02v_QsWF l) (f : Nat) {e : Nat} (he : e < 2^64) {a : Ct} (ha : c02v_PolysCanon l a) :
+    ∃ r, c02v_scale l f a e = .ok r ∧ c02v_PolysCanon l r ∧ r.polys.size = a.polys.size ∧ r.ntt = a.ntt ∧ r.cf = f ∧
+      ∀ k, k < a.polys.size → ∀ i, i < l.size → ∀ j, j < l.n →
+        r.c02v_res k i j = (a.c02v_res k i j * e) % (l.q i).value := by
+  obtain ⟨ys, hys, hall⟩ := c02v_mapM_ok
+    (fun (c r : RnsPoly) => RnsCanon l r ∧ ∀ i, i < l.size → ∀ j, j < l.n →
+      (r.getD i #[]).getD j 0 = ((c.getD i #[]).getD j 0 * e) % (l.q i).value)
+    (fun p => compsMap l.qs p (fun x m => mulMod x e m)) a.polys.toList (fun c hc => by
+      obtain ⟨k, hk, rfl⟩ := List.mem_iff_getElem.mp hc
+      have hk' : k < a.polys.size := by simpa using hk
+      have hc := ha.canon k hk'
+      have e : a.polys.getD k #[] = a.polys.toList[k] := by simp [Array.getD, hk']
+      rw [e] at hc
+      exact c02v_compsMap_spec hq he hc)
+  have hlen : ys.length = a.polys.size := by rw [← hall.length_eq]; simp
+  have hk : ∀ k, k < a.polys.size → RnsCanon l (ys.toArray.getD k #[]) ∧ ∀ i, i < l.size → ∀ j, j < l.n →
+      ((ys.toArray.getD k #[]).getD i #[]).getD j 0
+        = (((a.polys.getD k #[]).getD i #[]).getD j 0 * e) % (l.q i).value := by
+    intro k hk
+    have := c02v_forall2_getD hall #[] #[] (k := k) (by simpa using hk)
+    rw [c02v_polys_getD a hk, ← c02v_toArray_getD] at this
+    exact this
+  refine ⟨{ a with polys := ys.toArray, cf := f }, ?_, ⟨?_, ?_, ?_⟩, ?_, rfl, rfl, ?_⟩
+  · unfold c02v_scale
+    rw [hys]; rfl
+  · simpa [hlen] using ha.two_le
+  · simpa [hlen] using ha.le16
+  · intro k hk'
+    exact (hk k (by simpa [hlen] using hk')).1
+  · simp [hlen]
+  · intro k hk' i hi j hj
+    exact (hk k hk').2 i hi j hj
+
+theorem c02v_balanced_eq (l : Level) (a b : Ct) (sub : Bool) (h : a.cf ≠ b.cf) :
+    ctTranslateBalanced l a b sub = (do
+      let r ← balanceCorrectionFactors a.cf b.cf l.t
+      let a' ← c02v_scale l r.1 a r.2.1
+      let b' ← c02v_scale l r.1 b r.2.2
+      ctTranslate l a' b' sub) := by
+  unfold ctTranslateBalanced
+  rw [if_neg h]
+  rfl
+
+theorem c02v_polyVal_scale {S : Type} [CommRing S] {q n : Nat} (hS : ((q : Nat) : S) = 0) (e : Nat → S) (c : Nat) {p r : Array Nat}
+    (hr : ∀ j, j < n → r.getD j 0 = (p.getD j 0 * c) % q) :
+    c02v_polyVal e n r = c02v_polyVal e n p * ((c : Nat) : S) := by
+  unfold c02v_polyVal
+  rw [Finset.sum_mul]
+  refine Finset.sum_congr rfl (fun j hj => ?_)
+  rw [hr j (Finset.mem_range.mp hj), c02v_mod_cast hS]
+  push_cast; ring
+
+theorem c02v_scale_phase {S : Type} [CommRing S] {l : Level} {a r : Ct} {c : Nat} (hsz : r.polys.size = a.polys.size)
+    {i : Nat} (hi : i < l.size) (hS : (((l.q i).value : Nat) : S) = 0)
+    (hres : ∀ k, k < a.polys.size → ∀ i, i < l.size → ∀ j, j < l.n → r.c02v_res k i j = (a.c02v_res k i j * c) % (l.q i).value)
+    (e : Nat → S) (s : S) :
+    c02v_phase l r i e s = c02v_phase l a i e s * ((c : Nat) : S) := by
+  unfold c02v_phase
+  rw [hsz, ← mul_plain_phase]
+  unfold ctPhase
+  refine Finset.sum_congr rfl (fun k hk => ?_)
+  have hk := Finset.mem_range.mp hk
+  beta_reduce
+  rw [c02v_polyVal_scale hS e c (fun j hj => hres k hk i hi j hj)]
+
+
+/-- decomposition of the balancing branch of `ctTranslateBalanced`: both operands are scaled, then `ctTranslate` runs -/
+theorem c02v_balanced_decomp {l : Level} (hq : c02v_QsWF l) (ht : l.t.WF) {a b : Ct} (ha : c02v_PolysCanon l a)
+    (hb : c02v_PolysCanon l b) (sub : Bool) (hne : a.cf ≠ b.cf) (h1 : a.cf < l.t.value) (h2 : b.cf < l.t.value)
+    {f e1 e2 : Nat} (hbal : balanceCorrectionFactors a.cf b.cf l.t = .ok (f, e1, e2)) :
+    ∃ a' b', ctTranslateBalanced l a b sub = ctTranslate l a' b' sub ∧
+      c02v_PolysCanon l a' ∧ a'.polys.size = a.polys.size ∧ a'.ntt = a.ntt ∧ a'.cf = f ∧
+      (∀ k, k < a.polys.size → ∀ i, i < l.size → ∀ j, j < l.n → a'.c02v_res k i j = (a.c02v_res k i j * e1) % (l.q i).value) ∧
+      c02v_PolysCanon l b' ∧ b'.polys.size = b.polys.size ∧ b'.ntt = b.ntt ∧ b'.cf = f ∧
+      (∀ k, k < b.polys.size → ∀ i, i < l.size → ∀ j, j < l.n → b'.c02v_res k i j = (b.c02v_res k i j * e2) % (l.q i).value) := by
+  obtain ⟨he1, he2, _, _⟩ := c02v_balance_inv ht h1 h2 hbal
+  have htlt := ht.lt
+  obtain ⟨a', ha', ca, sa, na, fa, ra⟩ := c02v_scale_spec hq f (e := e1) (by omega) ha
+  obtain ⟨b', hb', cb, sb, nb, fb, rb⟩ := c02v_scale_spec hq f (e := e2) (by omega) hb
+  refine ⟨a', b', ?_, ca, sa, na, fa, ra, cb, sb, nb, fb, rb⟩
+  rw [c02v_balanced_eq l a b sub hne, hbal]
+  simp only [bind, Except.bind]
+  rw [ha', hb']
+
+/-- decoding of one BGV phase coefficient: reduce modulo t, multiply by the inverse of the correction factor -/
+def c02v_dec (t cf : Nat) (x : Int) : Nat := (Spec.imod x t * Spec.invMod cf t) % t
+
+theorem c02v_bgvDecode_eq (t cf : Nat) (ph : Spec.ZPoly) : Spec.bgvDecode t cf ph = ph.map (c02v_dec t cf) := rfl
+
+theorem c02v_imod_zmod (x : Int) {t : Nat} (ht : 0 < t) : ((Spec.imod x t : Nat) : ZMod t) = ((x : Int) : ZMod t) := by
+  have h : (((Spec.imod x t : Nat) : Int) : ZMod t) = ((x % (t : Int) : Int) : ZMod t) := by rw [c01j_imod_cast x ht]
+  rw [Int.cast_natCast] at h
+  rw [h, ZMod.intCast_mod]
+
+theorem c02v_inv_zmod {t cf : Nat} (ht : 2 ≤ t) (ht199 : t < 2^199) (hc : Nat.Coprime cf t) :
+    ((Spec.invMod cf t : Nat) : ZMod t) * ((cf : Nat) : ZMod t) = 1 := by
+  have := c01j_invMod_spec ht ht199 hc
+  have h2 := (ZMod.natCast_eq_natCast_iff' (Spec.invMod cf t * cf) 1 t).mpr this
+  push_cast at h2
+  exact h2
+
+theorem c02v_modeq_zmod {t : Nat} {x y : Nat} (h : x % t = y) : ((x : Nat) : ZMod t) = ((y : Nat) : ZMod t) := by
+  apply (ZMod.natCast_eq_natCast_iff' x y t).mpr
+  rw [← h, Nat.mod_mod]
+
+
+/-! ## V3, coefficient form: the inverse transform of the accumulated dyadic products is the sum of negacyclic products -/
+
+theorem c02v_intt_zero {t : NTTTables} (hw : t.WF) {z : Array Nat} (hz : z.size = 2^t.k)
+    (hz0 : ∀ j, j < 2^t.k → z.getD j 0 = 0) : ∀ c, c < 2^t.k → (intt t z).getD c 0 = 0 := by
+  have hq2 := hw.mwf.two_le
+  intro c hc
+  have hzl : ∀ j, j < 2^t.k → z.getD j 0 < t.modulus.value := fun j hj => by rw [hz0 j hj]; omega
+  have h := c01o_intt_add hw hz hz hz hzl hzl (fun j hj => by rw [hz0 j hj]; simp) c hc
+  have hv := ((intt_sim hw z hz (fun j hj => by rw [hz0 j hj]; omega)).2 c hc).1
+  generalize (intt t z).getD c 0 = v at h hv
+  by_cases h2 : v + v < t.modulus.value
+  · rw [Nat.mod_eq_of_lt h2] at h; omega
+  · rw [Nat.mod_eq_sub_mod (by omega), Nat.mod_eq_of_lt (by omega)] at h; omega
+
+/-- `intt` of a reduced sum of canonical vectors is the reduced sum of their `intt`s -/
+theorem c02v_intt_sum {t : NTTTables} (hw : t.WF) (D : Nat × Nat → Array Nat) :
+    ∀ (ps : List (Nat × Nat)) (z0 z : Array Nat),
+    (∀ p ∈ ps, (D p).size = 2^t.k ∧ ∀ j, j < 2^t.k → (D p).getD j 0 < t.modulus.value) →
+    z0.size = 2^t.k → (∀ j, j < 2^t.k → z0.getD j 0 < t.modulus.value) → z.size = 2^t.k →
+    (∀ j, j < 2^t.k → z.getD j 0 = (z0.getD j 0 + (ps.map (fun p => (D p).getD j 0)).sum) % t.modulus.value) →
+    ∀ c, c < 2^t.k → (intt t z).getD c 0
+      = ((intt t z0).getD c 0 + (ps.map (fun p => (intt t (D p)).getD c 0)).sum) % t.modulus.value := by
+  have hq2 := hw.mwf.two_le
+  intro ps
+  induction ps with
+  | nil =>
+    intro z0 z _ hz0 hz0l hz hzv c hc
+    have : z = z0 := array_ext_getD hz hz0 (fun j hj => by
+      rw [hzv j hj]; simp only [List.map_nil, List.sum_nil, Nat.add_zero]; exact Nat.mod_eq_of_lt (hz0l j hj))
+    rw [this]
+    simp only [List.map_nil, List.sum_nil, Nat.add_zero]
+    exact (Nat.mod_eq_of_lt ((intt_sim hw z0 hz0 (fun j hj => by have := hz0l j hj; omega)).2 c hc).1).symm
+  | cons p ps ih =>
+    intro z0 z hD hz0 hz0l hz hzv c hc
+    obtain ⟨hDp, hDpl⟩ := hD p (by simp)
+    generalize hwdef : ((List.range (2^t.k)).map fun j => (z0.getD j 0 + (D p).getD j 0) % t.modulus.value).toArray = w
+    have hws : w.size = 2^t.k := by rw [← hwdef]; simp
+    have hwv : ∀ j, j < 2^t.k → w.getD j 0 = (z0.getD j 0 + (D p).getD j 0) % t.modulus.value := by
+      intro j hj; rw [← hwdef]; exact getD_rangeMap _ _ hj
+    have hwl : ∀ j, j < 2^t.k → w.getD j 0 < t.modulus.value := by
+      intro j hj; rw [hwv j hj]; exact Nat.mod_lt _ (by omega)
+    have h1 := ih w z (fun p' hp' => hD p' (by simp [hp'])) hws hwl hz (fun j hj => by
+      rw [hzv j hj, hwv j hj]
+      simp only [List.map_cons, List.sum_cons]
+      rw [Nat.mod_add_mod, Nat.add_assoc]) c hc
+    rw [h1, c01o_intt_add hw hz0 hDp hws hz0l hDpl hwv c hc]
+    simp only [List.map_cons, List.sum_cons]
+    rw [Nat.mod_add_mod, Nat.add_assoc]
+
+theorem c02v_list_sum_mod (q : Nat) (f : Nat × Nat → Nat) :
+    ∀ ps : List (Nat × Nat), (ps.map f).sum % q = (ps.map (fun p => f p % q)).sum % q
+  | [] => rfl
+  | p :: ps => by
+    simp only [List.map_cons, List.sum_cons]
+    rw [Nat.add_mod, c02v_list_sum_mod q f ps, Nat.add_mod_mod]
+
+/-- one output component, coefficient form: if z_j = Σ_p A_{p.1}[j]·B_{p.2}[j] mod q for canonical NTT-form vectors, then
+    intt z = Σ_p (intt A_{p.1}) ⊛ (intt B_{p.2}) mod (X^N + 1, q) -/
+theorem c02v_comp_coeff {t : NTTTables} (hw : t.WF) (A B : Nat → Array Nat) (ps : List (Nat × Nat))
+    (hA : ∀ p ∈ ps, (A p.1).size = 2^t.k ∧ ∀ j, j < 2^t.k → (A p.1).getD j 0 < t.modulus.value)
+    (hB : ∀ p ∈ ps, (B p.2).size = 2^t.k ∧ ∀ j, j < 2^t.k → (B p.2).getD j 0 < t.modulus.value)
+    {z : Array Nat} (hz : z.size = 2^t.k)
+    (hzv : ∀ j, j < 2^t.k → z.getD j 0 = (ps.map (fun p => (A p.1).getD j 0 * (B p.2).getD j 0)).sum % t.modulus.value) :
+    ∀ c, c < 2^t.k → (intt t z).getD c 0
+      = (ps.map (fun p => negMulNat (2^t.k) t.modulus.value (intt t (A p.1)) (intt t (B p.2)) c)).sum % t.modulus.value := by
+  have hq2 := hw.mwf.two_le
+  intro c hc
+  generalize hDdef : (fun p : Nat × Nat => ((List.range (2^t.k)).map fun j =>
+    ((A p.1).getD j 0 * (B p.2).getD j 0) % t.modulus.value).toArray) = D
+  have hDs : ∀ p, (D p).size = 2^t.k := by intro p; rw [← hDdef]; simp
+  have hDv : ∀ p j, j < 2^t.k → (D p).getD j 0 = ((A p.1).getD j 0 * (B p.2).getD j 0) % t.modulus.value := by
+    intro p j hj; rw [← hDdef]; exact getD_rangeMap _ _ hj
+  generalize hz0def : (Array.replicate (2^t.k) 0 : Array Nat) = z0
+  have hz0s : z0.size = 2^t.k := by rw [← hz0def]; simp
+  have hz0v : ∀ j, j < 2^t.k → z0.getD j 0 = 0 := by intro j hj; rw [← hz0def]; simp [Array.getD, hj]
+  have h := c02v_intt_sum hw D ps z0 z
+    (fun p _ => ⟨hDs p, fun j hj => by rw [hDv p j hj]; exact Nat.mod_lt _ (by omega)⟩)
+    hz0s (fun j hj => by rw [hz0v j hj]; omega) hz
+    (fun j hj => by
+      rw [hzv j hj, hz0v j hj, Nat.zero_add, c02v_list_sum_mod]
+      congr 2
+      apply List.map_congr_left
+      intro p _
+      exact (hDv p j hj).symm) c hc
+  rw [h, c02v_intt_zero hw hz0s hz0v c hc, Nat.zero_add]
+  congr 2
+  apply List.map_congr_left
+  intro p hp
+  obtain ⟨hAs, hAl⟩ := hA p hp
+  obtain ⟨hBs, hBl⟩ := hB p hp
+  obtain ⟨b1, b2⟩ := intt_sim hw (B p.2) hBs (fun j hj => by have := hBl j hj; omega)
+  refine c01o_conv hw hAs b1 (hDs p) hAl (fun j hj => (b2 j hj).1) (fun j hj => ?_) c hc
+  rw [hDv p j hj, ntt_intt hw (B p.2) hBs hBl]
+
+
+/-! ## Satisfiability of the hypotheses: readings `e`, a concrete level and ciphertext -/
+
+def c02v_delta {S : Type} [CommRing S] (j0 : Nat) : Nat → S := fun j => if j = j0 then 1 else 0
+
+theorem c02v_delta_orth {S : Type} [CommRing S] (j0 n : Nat) :
+    ∀ j j', j < n → j' < n → (c02v_delta j0 j : S) * c02v_delta j0 j' = if j = j' then c02v_delta j0 j else 0 := by
+  intro j j' _ _
+  unfold c02v_delta
+  by_cases h1 : j = j0 <;> by_cases h2 : j' = j0 <;> by_cases h3 : j = j' <;> simp [h1, h2, h3] <;> omega
+
+theorem c02v_single_orth {T : Type} [CommRing T] (n : Nat) :
+    ∀ j j', j < n → j' < n →
+      (Pi.single j (1 : T) : Nat → T) * Pi.single j' 1 = if j = j' then Pi.single j 1 else 0 := by
+  intro j j' _ _
+  ext x
+  by_cases h3 : j = j'
+  · subst h3
+    rw [if_pos rfl]
+    simp only [Pi.mul_apply, Pi.single_apply]
+    by_cases hx : x = j <;> simp [hx]
+  · rw [if_neg h3]
+    simp only [Pi.mul_apply, Pi.single_apply, Pi.zero_apply]
+    by_cases hx : x = j <;> by_cases hx' : x = j' <;> simp [hx, hx'] <;> omega
+
+theorem c02v_polyVal_delta {S : Type} [CommRing S] {j0 n : Nat} (hj : j0 < n) (p : Array Nat) :
+    c02v_polyVal (c02v_delta j0 : Nat → S) n p = ((p.getD j0 0 : Nat) : S) := by
+  unfold c02v_polyVal c02v_delta
+  simp only [mul_ite, mul_one, mul_zero]
+  rw [Finset.sum_ite_eq' , if_pos (Finset.mem_range.mpr hj)]
+
+theorem c02v_phase_delta {S : Type} [CommRing S] (l : Level) (ct : Ct) (i : Nat) {j : Nat} (hj : j < l.n) (s : S) :
+    c02v_phase l ct i (c02v_delta j) s = ctPhase ct.polys.size (fun k => ((ct.c02v_res k i j : Nat) : S)) s := by
+  unfold c02v_phase
+  simp only [c02v_polyVal_delta hj]
+  rfl
+
+def c02v_exQ : Modulus := ⟨17, (2^128 / 17) % B64, (2^128 / 17) / B64, 2^128 % 17, bitCount 17⟩
+def c02v_exT : Modulus := ⟨5, (2^128 / 5) % B64, (2^128 / 5) / B64, 2^128 % 5, bitCount 5⟩
+def c02v_exLevel : Level := { (default : Level) with scheme := .bgv, n := 2, k := 1, qs := #[c02v_exQ, c02v_exQ], t := c02v_exT }
+def c02v_exCt : Ct := ⟨#[#[#[1, 2], #[3, 16]], #[#[0, 5], #[7, 11]], #[#[4, 4], #[9, 0]]], true, 3⟩
+
+def c02v_exCt2 : Ct := ⟨#[#[#[6, 2], #[3, 1]], #[#[0, 15], #[8, 11]]], true, 2⟩
+
+theorem c02v_exQ_wf : c02v_exQ.WF := (Modulus.mk?_wf (v := 17) (m := c02v_exQ) rfl (by decide)).1
+theorem c02v_exT_wf : c02v_exLevel.t.WF := (Modulus.mk?_wf (v := 5) (m := c02v_exT) rfl (by decide)).1
+
+theorem c02v_exLevel_qsWF : c02v_QsWF c02v_exLevel := by
+  intro i hi
+  have hi' : i < 2 := hi
+  have : c02v_exLevel.q i = c02v_exQ := by
+    interval_cases i <;> rfl
+  rw [this]; exact c02v_exQ_wf
+
+theorem c02v_exCt_canon : CtCanon c02v_exLevel c02v_exCt := by
+  refine ⟨⟨by decide, by decide, fun k hk => ?_⟩, ?_⟩
+  · have hk' : k < 3 := hk
+    interval_cases k <;> refine ⟨rfl, fun i hi => ?_⟩ <;>
+      (have hi' : i < 2 := hi
+       interval_cases i <;> refine ⟨rfl, fun j hj => ?_⟩ <;>
+         (have hj' : j < 2 := hj
+          interval_cases j <;> decide))
+  · exact ⟨by decide, by decide⟩
+
+theorem c02v_exCt2_canon : CtCanon c02v_exLevel c02v_exCt2 := by
+  refine ⟨⟨by decide, by decide, fun k hk => ?_⟩, ?_⟩
+  · have hk' : k < 2 := hk
+    interval_cases k <;> refine ⟨rfl, fun i hi => ?_⟩ <;>
+      (have hi' : i < 2 := hi
+       interval_cases i <;> refine ⟨rfl, fun j hj => ?_⟩ <;>
+         (have hj' : j < 2 := hj
+          interval_cases j <;> decide))
+  · exact ⟨by decide, by decide⟩
+
+
+
 /-! ## Property theorems -/
 
 /-- V1 residues: `ctNegate` succeeds on a canonical ciphertext, keeps size / representation / correction factor, the result is
@@ -133,7 +913,7 @@ theorem c02v_polyVal_neg {S : Type} [CommRing S] {q n : Nat} (hS : ((q : Nat) : 
 theorem ctNegate_spec {l : Level} (hq : c02v_QsWF l) {a : Ct} (ha : CtCanon l a) :
     ∃ r, ctNegate l a = .ok r ∧ CtCanon l r ∧ r.polys.size = a.polys.size ∧ r.ntt = a.ntt ∧ r.cf = a.cf ∧
       ∀ k, k < a.polys.size → ∀ i, i < l.size → ∀ j, j < l.n →
-        r.res k i j = ((l.q i).value - a.res k i j) % (l.q i).value := by
+        r.c02v_res k i j = ((l.q i).value - a.c02v_res k i j) % (l.q i).value := by
   obtain ⟨ys, hys, hall⟩ := c02v_mapM_ok
     (fun (p r : RnsPoly) => RnsCanon l r ∧ ∀ i, i < l.size → ∀ j, j < l.n →
       (r.getD i #[]).getD j 0 = ((l.q i).value - (p.getD i #[]).getD j 0) % (l.q i).value)
@@ -152,7 +932,7 @@ theorem ctNegate_spec {l : Level} (hq : c02v_QsWF l) {a : Ct} (ha : CtCanon l a)
     have := c02v_forall2_getD hall #[] #[] (k := k) (by simpa using hk)
     rw [c02v_polys_getD a hk, ← c02v_toArray_getD] at this
     exact this
-  refine ⟨{ a with polys := ys.toArray }, ?_, ⟨?_, ?_, ?_, ha.cf⟩, ?_, rfl, rfl, ?_⟩
+  refine ⟨{ a with polys := ys.toArray }, ?_, ⟨⟨?_, ?_, ?_⟩, ha.cf⟩, ?_, rfl, rfl, ?_⟩
   · unfold ctNegate
     rw [hys]; rfl
   · simpa [hlen] using ha.two_le
@@ -178,5 +958,502 @@ theorem ctNegate_phase {S : Type} [CommRing S] {l : Level} (hq : c02v_QsWF l) {a
   have hk := Finset.mem_range.mp hk
   beta_reduce
   rw [c02v_polyVal_neg hS e (fun j hj => ((ha.canon k hk).2 i hi).2 j hj) (fun j hj => hres k hk i hi j hj)]
+
+/-- V2 residues: `ctTranslate` (add / sub of canonical ciphertexts of ANY two sizes, same representation and correction factor)
+    succeeds; the result has size max(n1, n2), is canonical, and polynomial k is `a_k ± b_k` where both exist, `a_k` beyond the
+    size of b, and `b_k` resp. `−b_k` (subtraction) beyond the size of a -/
+theorem ctTranslate_spec {l : Level} (hq : c02v_QsWF l) {a b : Ct} (ha : CtCanon l a) (hb : CtCanon l b) (sub : Bool)
+    (hntt : a.ntt = b.ntt) (hcf : a.cf = b.cf) :
+    ∃ r, ctTranslate l a b sub = .ok r ∧ CtCanon l r ∧ r.polys.size = max a.polys.size b.polys.size ∧
+      r.ntt = a.ntt ∧ r.cf = a.cf ∧
+      ∀ k, k < max a.polys.size b.polys.size → ∀ i, i < l.size → ∀ j, j < l.n →
+        r.c02v_res k i j =
+          if k < a.polys.size ∧ k < b.polys.size then
+            (if sub then (a.c02v_res k i j + (l.q i).value - b.c02v_res k i j) % (l.q i).value
+             else (a.c02v_res k i j + b.c02v_res k i j) % (l.q i).value)
+          else if k < a.polys.size then a.c02v_res k i j
+          else (if sub then ((l.q i).value - b.c02v_res k i j) % (l.q i).value else b.c02v_res k i j) := by
+  obtain ⟨r, h, hc, hsz, hn, hf, hres⟩ := c02v_ctTranslate_core hq ha.toc02v_PolysCanon hb.toc02v_PolysCanon sub hntt hcf
+  exact ⟨r, h, ⟨hc, by rw [hf]; exact ha.cf⟩, hsz, hn, hf, hres⟩
+
+/-- V2 phase: in every commutative ring in which `q_i = 0`, the phase of the result of `ctTranslate` is the sum resp. difference
+    of the phases — for all pairs of sizes (this is `translate_phase` of C02K instantiated with the model's output) -/
+theorem ctTranslate_phase {S : Type} [CommRing S] {l : Level} (hq : c02v_QsWF l) {a b r : Ct} (ha : CtCanon l a)
+    (hb : CtCanon l b) {sub : Bool} (hr : ctTranslate l a b sub = .ok r)
+    {i : Nat} (hi : i < l.size) (hS : (((l.q i).value : Nat) : S) = 0) (e : Nat → S) (s : S) :
+    c02v_phase l r i e s = if sub then c02v_phase l a i e s - c02v_phase l b i e s
+      else c02v_phase l a i e s + c02v_phase l b i e s :=
+  c02v_ctTranslate_phase_core hq ha.toc02v_PolysCanon hb.toc02v_PolysCanon hr hi hS e s
+
+/-- V2 refusals: operands in different representations are refused; different correction factors are not handled by
+    `ctTranslate` itself (error; they go through `ctTranslateBalanced`) -/
+theorem ctTranslate_refuse_ntt (l : Level) (a b : Ct) (sub : Bool) (h : a.ntt ≠ b.ntt) :
+    ctTranslate l a b sub = .error .refused := c02v_ctTranslate_refuse_ntt l a b sub h
+
+theorem ctTranslate_error_cf (l : Level) (a b : Ct) (sub : Bool) (h : a.ntt = b.ntt) (hcf : a.cf ≠ b.cf) :
+    ctTranslate l a b sub = .error .other := c02v_ctTranslate_error_cf l a b sub h hcf
+
+/-- V3 refusal: the dyadic product needs both operands in NTT form -/
+theorem ctMultiplyDyadic_refuse (l : Level) (a b : Ct) (h : a.ntt = false ∨ b.ntt = false) :
+    ctMultiplyDyadic l a b = .error .refused := by
+  unfold ctMultiplyDyadic
+  rw [if_pos (by rcases h with h | h <;> simp [h])]
+
+/-- V3 residues: the dyadic product of canonical NTT-form ciphertexts of ANY sizes n1, n2 succeeds, has n1 + n2 − 1 canonical
+    polynomials, and residue (i, j) of polynomial k is Σ_{x + y = k} a_x[i][j] · b_y[i][j] mod q_i (the pairs are those of
+    `mulPairs`, characterised by `mulPairs_spec`) -/
+theorem ctMultiplyDyadic_spec {l : Level} (hq : c02v_QsWF l) {a b : Ct} (ha : CtCanon l a) (hb : CtCanon l b)
+    (hna : a.ntt = true) (hnb : b.ntt = true) :
+    ∃ r, ctMultiplyDyadic l a b = .ok r ∧ r.polys.size = a.polys.size + b.polys.size - 1 ∧ r.ntt = true ∧ r.cf = a.cf ∧
+      (∀ k, k < a.polys.size + b.polys.size - 1 → RnsCanon l (r.polys.getD k #[])) ∧
+      (a.polys.size + b.polys.size - 1 ≤ 16 → CtCanon l r) ∧
+      ∀ k, k < a.polys.size + b.polys.size - 1 → ∀ i, i < l.size → ∀ j, j < l.n →
+        r.c02v_res k i j = ((mulPairs a.polys.size b.polys.size k).map (fun p => a.c02v_res p.1 i j * b.c02v_res p.2 i j)).sum
+          % (l.q i).value := by
+  have h2a := ha.two_le; have h2b := hb.two_le
+  obtain ⟨z1, z2⟩ := c02v_rnsZero_spec hq
+  obtain ⟨ys, hys, hall⟩ := c02v_mapM_ok
+    (fun (k : Nat) (y : RnsPoly) => RnsCanon l y ∧ ∀ i, i < l.size → ∀ j, j < l.n →
+      (y.getD i #[]).getD j 0 = ((mulPairs a.polys.size b.polys.size k).map (fun p => a.c02v_res p.1 i j * b.c02v_res p.2 i j)).sum
+          % (l.q i).value)
+    (fun k => (mulPairs a.polys.size b.polys.size k).foldlM (fun acc p => do
+      let pr ← rnsDyadic l (a.polys.getD p.1 #[]) (b.polys.getD p.2 #[])
+      rnsAdd l acc pr) (rnsZero l))
+    (List.range (a.polys.size + b.polys.size - 1)) (fun k hk => by
+      have hk := List.mem_range.mp hk
+      obtain ⟨_, hmem⟩ := mulPairs_spec (n1 := a.polys.size) (n2 := b.polys.size) (by omega) (by omega) hk
+      obtain ⟨r, hr, cr, vr⟩ := c02v_mulFold hq ha.canon hb.canon (mulPairs a.polys.size b.polys.size k) (rnsZero l) z1
+        (fun p hp => by have := (hmem p.1 p.2).mp hp; exact ⟨this.1, this.2.1⟩)
+      refine ⟨r, hr, cr, fun i hi j hj => ?_⟩
+      rw [vr i hi j hj, z2 i hi j hj, Nat.zero_add])
+  have hlen : ys.length = a.polys.size + b.polys.size - 1 := by rw [← hall.length_eq]; simp
+  have hk : ∀ k, k < a.polys.size + b.polys.size - 1 → RnsCanon l (ys.toArray.getD k #[]) ∧ ∀ i, i < l.size → ∀ j, j < l.n →
+      ((ys.toArray.getD k #[]).getD i #[]).getD j 0
+        = ((mulPairs a.polys.size b.polys.size k).map (fun p => a.c02v_res p.1 i j * b.c02v_res p.2 i j)).sum % (l.q i).value := by
+    intro k hk
+    have := c02v_forall2_getD hall 0 #[] (k := k) (by simpa using hk)
+    rw [← c02v_toArray_getD] at this
+    have e : (List.range (a.polys.size + b.polys.size - 1)).getD k 0 = k := by
+      simp [List.getD, List.getElem?_range hk]
+    rw [e] at this
+    exact this
+  refine ⟨{ a with polys := ys.toArray }, ?_, by simp [hlen], hna, rfl, ?_, ?_, ?_⟩
+  · unfold ctMultiplyDyadic
+    rw [if_neg (by simp [hna, hnb])]
+    simp only []
+    rw [if_neg (by omega)]
+    erw [hys]; rfl
+  · intro k hk'
+    exact (hk k hk').1
+  · intro h16
+    refine ⟨⟨?_, ?_, ?_⟩, ha.cf⟩
+    · simp only [List.size_toArray, hlen]; omega
+    · simp only [List.size_toArray, hlen]; omega
+    · intro k hk'
+      exact (hk k (by simpa [hlen] using hk')).1
+  · intro k hk' i hi j hj
+    exact (hk k hk').2 i hi j hj
+
+/-- V3 phase: in every commutative ring in which `q_i = 0`, reading the NTT slots through orthogonal idempotents `e`
+    (`e j = δ_j` in the product ring of the slots, or `e = δ_{j0}` for one slot), the phase of the result is the PRODUCT of
+    the phases, for every secret `s` — `ct_mul_phase` of C02K instantiated with the model's output -/
+theorem ctMultiplyDyadic_phase {S : Type} [CommRing S] {l : Level} (hq : c02v_QsWF l) {a b r : Ct} (ha : CtCanon l a)
+    (hb : CtCanon l b) (hr : ctMultiplyDyadic l a b = .ok r)
+    {i : Nat} (hi : i < l.size) (hS : (((l.q i).value : Nat) : S) = 0) (e : Nat → S)
+    (he : ∀ j j', j < l.n → j' < l.n → e j * e j' = if j = j' then e j else 0) (s : S) :
+    c02v_phase l r i e s = c02v_phase l a i e s * c02v_phase l b i e s := by
+  have hna : a.ntt = true := by
+    by_contra h; rw [ctMultiplyDyadic_refuse l a b (Or.inl (by simpa using h))] at hr; cases hr
+  have hnb : b.ntt = true := by
+    by_contra h; rw [ctMultiplyDyadic_refuse l a b (Or.inr (by simpa using h))] at hr; cases hr
+  obtain ⟨r', hr', hsz, _, _, _, _, hres⟩ := ctMultiplyDyadic_spec hq ha hb hna hnb
+  rw [hr] at hr'
+  obtain rfl := Except.ok.inj hr'
+  have h2a := ha.two_le; have h2b := hb.two_le
+  unfold c02v_phase
+  rw [hsz, ← ct_mul_phase (by omega) (by omega)]
+  unfold ctPhase
+  refine Finset.sum_congr rfl (fun k hk => ?_)
+  have hk := Finset.mem_range.mp hk
+  beta_reduce
+  congr 1
+  exact c02v_polyVal_mulsum hS e he (fun k => (a.polys.getD k #[]).getD i #[]) (fun k => (b.polys.getD k #[]).getD i #[])
+    (mulPairs a.polys.size b.polys.size k) (fun j hj => hres k hk i hi j hj)
+
+/-- V3 coefficient form (NTT multiplicativity of C09): for a level whose tables are well formed, the coefficient form
+    `intt` of result polynomial k is Σ_{x + y = k} (intt a_x) ⊛ (intt b_y), the NEGACYCLIC products modulo (X^N + 1, q_i)
+    (`negMulNat`), summed modulo q_i — i.e. the coefficient-form ciphertext is the Cauchy product of the coefficient-form
+    operands in Z_{q_i}[X]/(X^N + 1), whose phase is the product of the phases by `ct_mul_phase` -/
+theorem ctMultiplyDyadic_coeff {l : Level} (hl : l.WF) {a b r : Ct} (ha : CtCanon l a) (hb : CtCanon l b)
+    (hr : ctMultiplyDyadic l a b = .ok r) :
+    ∀ k, k < a.polys.size + b.polys.size - 1 → ∀ i, i < l.size → ∀ c, c < l.n →
+      (intt (l.tbl i) ((r.polys.getD k #[]).getD i #[])).getD c 0 =
+        ((mulPairs a.polys.size b.polys.size k).map (fun p => negMulNat l.n (l.q i).value
+          (intt (l.tbl i) ((a.polys.getD p.1 #[]).getD i #[])) (intt (l.tbl i) ((b.polys.getD p.2 #[]).getD i #[])) c)).sum
+          % (l.q i).value := by
+  have hq := c02v_qsWF_of_levelWF hl
+  have hna : a.ntt = true := by
+    by_contra h; rw [ctMultiplyDyadic_refuse l a b (Or.inl (by simpa using h))] at hr; cases hr
+  have hnb : b.ntt = true := by
+    by_contra h; rw [ctMultiplyDyadic_refuse l a b (Or.inr (by simpa using h))] at hr; cases hr
+  obtain ⟨r', hr', _, _, _, hcan, _, hres⟩ := ctMultiplyDyadic_spec hq ha hb hna hnb
+  rw [hr] at hr'
+  obtain rfl := Except.ok.inj hr'
+  have h2a := ha.two_le; have h2b := hb.two_le
+  intro k hk i hi c hc
+  obtain ⟨htw, htm, htn, _⟩ := c01o_level_comp hl hi
+  obtain ⟨_, hmem⟩ := mulPairs_spec (n1 := a.polys.size) (n2 := b.polys.size) (by omega) (by omega) hk
+  have := c02v_comp_coeff htw (fun x => (a.polys.getD x #[]).getD i #[]) (fun y => (b.polys.getD y #[]).getD i #[])
+    (mulPairs a.polys.size b.polys.size k)
+    (fun p hp => by
+      have hp1 := ((hmem p.1 p.2).mp hp).1
+      rw [htn, htm]
+      exact (ha.canon p.1 hp1).2 i hi)
+    (fun p hp => by
+      have hp2 := ((hmem p.1 p.2).mp hp).2.1
+      rw [htn, htm]
+      exact (hb.canon p.2 hp2).2 i hi)
+    (z := (r.polys.getD k #[]).getD i #[])
+    (by rw [htn]; exact ((hcan k hk).2 i hi).1)
+    (fun j hj => by rw [htm]; exact hres k hk i hi j (by rw [← htn]; exact hj)) c (by rw [htn]; exact hc)
+  rw [htn, htm] at this
+  exact this
+
+/-- V5 refusal: `multiply_plain_ntt` needs the ciphertext in NTT form -/
+theorem ctMultiplyPlainNtt_refuse (l : Level) (a : Ct) (p : RnsPoly) (h : a.ntt = false) :
+    ctMultiplyPlainNtt l a p = .error .refused := by
+  unfold ctMultiplyPlainNtt
+  rw [if_pos (by simp [h])]
+
+/-- V5 residues: every polynomial of a canonical NTT-form ciphertext is multiplied dyadically by the canonical plaintext -/
+theorem ctMultiplyPlainNtt_spec {l : Level} (hq : c02v_QsWF l) {a : Ct} (ha : CtCanon l a) (hna : a.ntt = true)
+    {p : RnsPoly} (hp : RnsCanon l p) :
+    ∃ r, ctMultiplyPlainNtt l a p = .ok r ∧ CtCanon l r ∧ r.polys.size = a.polys.size ∧ r.ntt = true ∧ r.cf = a.cf ∧
+      ∀ k, k < a.polys.size → ∀ i, i < l.size → ∀ j, j < l.n →
+        r.c02v_res k i j = (a.c02v_res k i j * (p.getD i #[]).getD j 0) % (l.q i).value := by
+  obtain ⟨ys, hys, hall⟩ := c02v_mapM_ok
+    (fun (c r : RnsPoly) => RnsCanon l r ∧ ∀ i, i < l.size → ∀ j, j < l.n →
+      (r.getD i #[]).getD j 0 = ((c.getD i #[]).getD j 0 * (p.getD i #[]).getD j 0) % (l.q i).value)
+    (fun c => rnsDyadic l c p) a.polys.toList (fun c hc => by
+      obtain ⟨k, hk, rfl⟩ := List.mem_iff_getElem.mp hc
+      have hk' : k < a.polys.size := by simpa using hk
+      have hc := ha.canon k hk'
+      have e : a.polys.getD k #[] = a.polys.toList[k] := by simp [Array.getD, hk']
+      rw [e] at hc
+      exact c02v_rnsDyadic_spec hq hc hp)
+  have hlen : ys.length = a.polys.size := by rw [← hall.length_eq]; simp
+  have hk : ∀ k, k < a.polys.size → RnsCanon l (ys.toArray.getD k #[]) ∧ ∀ i, i < l.size → ∀ j, j < l.n →
+      ((ys.toArray.getD k #[]).getD i #[]).getD j 0
+        = (((a.polys.getD k #[]).getD i #[]).getD j 0 * (p.getD i #[]).getD j 0) % (l.q i).value := by
+    intro k hk
+    have := c02v_forall2_getD hall #[] #[] (k := k) (by simpa using hk)
+    rw [c02v_polys_getD a hk, ← c02v_toArray_getD] at this
+    exact this
+  refine ⟨{ a with polys := ys.toArray }, ?_, ⟨⟨?_, ?_, ?_⟩, ha.cf⟩, ?_, hna, rfl, ?_⟩
+  · unfold ctMultiplyPlainNtt
+    rw [if_neg (by simp [hna])]
+    erw [hys]; rfl
+  · simpa [hlen] using ha.two_le
+  · simpa [hlen] using ha.le16
+  · intro k hk'
+    exact (hk k (by simpa [hlen] using hk')).1
+  · simp [hlen]
+  · intro k hk' i hi j hj
+    exact (hk k hk').2 i hi j hj
+
+/-- V5 phase: the phase is multiplied by the value of the plaintext (NTT slots read through orthogonal idempotents) -/
+theorem ctMultiplyPlainNtt_phase {S : Type} [CommRing S] {l : Level} (hq : c02v_QsWF l) {a r : Ct} (ha : CtCanon l a)
+    {p : RnsPoly} (hp : RnsCanon l p) (hr : ctMultiplyPlainNtt l a p = .ok r)
+    {i : Nat} (hi : i < l.size) (hS : (((l.q i).value : Nat) : S) = 0) (e : Nat → S)
+    (he : ∀ j j', j < l.n → j' < l.n → e j * e j' = if j = j' then e j else 0) (s : S) :
+    c02v_phase l r i e s = c02v_phase l a i e s * c02v_polyVal e l.n (p.getD i #[]) := by
+  have hna : a.ntt = true := by
+    by_contra h; rw [ctMultiplyPlainNtt_refuse l a p (by simpa using h)] at hr; cases hr
+  obtain ⟨r', hr', _, hsz, _, _, hres⟩ := ctMultiplyPlainNtt_spec hq ha hna hp
+  rw [hr] at hr'
+  obtain rfl := Except.ok.inj hr'
+  unfold c02v_phase
+  rw [hsz, ← mul_plain_phase]
+  unfold ctPhase
+  refine Finset.sum_congr rfl (fun k hk => ?_)
+  have hk := Finset.mem_range.mp hk
+  beta_reduce
+  congr 1
+  have := c02v_polyVal_mulsum hS e he (fun _ => (a.polys.getD k #[]).getD i #[]) (fun _ => p.getD i #[]) [(0, 0)]
+    (r := (r.polys.getD k #[]).getD i #[]) (fun j hj => by
+      simp only [List.map_cons, List.map_nil, List.sum_cons, List.sum_nil, Nat.add_zero]
+      exact hres k hk i hi j hj)
+  simpa using this
+
+/-- V4 product: `bgvMultiply` is the dyadic product (all conclusions of `ctMultiplyDyadic_spec` / `_phase` apply to `c`) with the
+    correction factor replaced by the product of the factors modulo t -/
+theorem bgvMultiply_spec {l : Level} (ht : l.t.WF) {a b c : Ct} (hc : ctMultiplyDyadic l a b = .ok c)
+    (h1 : a.cf < 2^64) (h2 : b.cf < 2^64) :
+    bgvMultiply l a b = .ok { c with cf := (a.cf * b.cf) % l.t.value } := by
+  unfold bgvMultiply
+  rw [hc]
+  simp only [bind, Except.bind, mulMod_exact ht h1 h2]
+  rfl
+
+theorem bgvMultiply_refuse (l : Level) (a b : Ct) (h : a.ntt = false ∨ b.ntt = false) :
+    bgvMultiply l a b = .error .refused := by
+  unfold bgvMultiply
+  rw [ctMultiplyDyadic_refuse l a b h]
+  rfl
+
+/-- the product of unit correction factors is a unit in range, so the product of canonical BGV ciphertexts is canonical -/
+theorem bgvMultiply_canon {l : Level} (hq : c02v_QsWF l) (ht : l.t.WF) {a b : Ct} (ha : CtCanon l a) (hb : CtCanon l b)
+    (hna : a.ntt = true) (hnb : b.ntt = true) (hs : l.scheme = .bgv) (h16 : a.polys.size + b.polys.size - 1 ≤ 16)
+    (c1 : Nat.Coprime a.cf l.t.value) (c2 : Nat.Coprime b.cf l.t.value) :
+    ∃ r, bgvMultiply l a b = .ok r ∧ CtCanon l r ∧ r.cf = (a.cf * b.cf) % l.t.value ∧ Nat.Coprime r.cf l.t.value := by
+  obtain ⟨c, hc, _, _, _, _, hcan, _⟩ := ctMultiplyDyadic_spec hq ha hb hna hnb
+  have hfa := ha.cf; have hfb := hb.cf
+  unfold c02v_cfOk at hfa hfb
+  rw [hs] at hfa hfb
+  simp only at hfa hfb
+  have htlt := ht.lt
+  have hcop : Nat.Coprime ((a.cf * b.cf) % l.t.value) l.t.value := by
+    unfold Nat.Coprime
+    rw [← Nat.gcd_rec, Nat.gcd_comm]
+    exact Nat.Coprime.mul_left c1 c2
+  refine ⟨_, bgvMultiply_spec ht hc (by omega) (by omega), ⟨⟨(hcan h16).two_le, (hcan h16).le16, (hcan h16).canon⟩, ?_⟩, rfl, hcop⟩
+  unfold c02v_cfOk
+  rw [hs]
+  simp only
+  have h2 := ht.two_le
+  refine ⟨fun h0 => ?_, (Nat.mod_lt _ (by omega)).le⟩
+  rw [h0, Nat.Coprime, Nat.gcd_zero_left] at hcop
+  omega
+
+/-- V4 sum, equal factors: no balancing -/
+theorem ctTranslateBalanced_same (l : Level) (a b : Ct) (sub : Bool) (h : a.cf = b.cf) :
+    ctTranslateBalanced l a b sub = ctTranslate l a b sub := by
+  unfold ctTranslateBalanced
+  rw [if_pos h]
+
+/-- V4 refusal: a first correction factor that is not a unit modulo t cannot be balanced -/
+theorem ctTranslateBalanced_refuse {l : Level} (ht : l.t.WF) (a b : Ct) (sub : Bool) (hne : a.cf ≠ b.cf)
+    (h1 : a.cf < 2^63) (hc : ¬ Nat.Coprime a.cf l.t.value) :
+    ctTranslateBalanced l a b sub = .error .refused := by
+  rw [c02v_balanced_eq l a b sub hne, c02v_balance_refuse ht b.cf h1 hc]
+  rfl
+
+/-- V4 sum, different factors: with the multipliers (f, e1, e2) returned by `balanceCorrectionFactors` (characterised by
+    `balance_spec`: e1·f1 ≡ e2·f2 ≡ f mod t), the result has correction factor f and polynomial k is
+    `e1·a_k ± e2·b_k` (all residue-wise mod q_i) with the tail of the longer operand scaled (and negated for a subtrahend) -/
+theorem ctTranslateBalanced_spec {l : Level} (hq : c02v_QsWF l) (ht : l.t.WF) {a b : Ct} (ha : CtCanon l a) (hb : CtCanon l b)
+    (sub : Bool) (hntt : a.ntt = b.ntt) (hne : a.cf ≠ b.cf) (h1 : a.cf < l.t.value) (h2 : b.cf < l.t.value)
+    {f e1 e2 : Nat} (hbal : balanceCorrectionFactors a.cf b.cf l.t = .ok (f, e1, e2)) :
+    ∃ r, ctTranslateBalanced l a b sub = .ok r ∧ c02v_PolysCanon l r ∧ r.polys.size = max a.polys.size b.polys.size ∧
+      r.ntt = a.ntt ∧ r.cf = f ∧ f < l.t.value ∧ (e1 * a.cf) % l.t.value = f ∧ (e2 * b.cf) % l.t.value = f ∧
+      e1 < l.t.value ∧ e2 < l.t.value ∧ Nat.Coprime a.cf l.t.value ∧
+      (Nat.Coprime b.cf l.t.value → Nat.Coprime f l.t.value ∧ (l.scheme = .bgv → CtCanon l r)) ∧
+      ∀ k, k < max a.polys.size b.polys.size → ∀ i, i < l.size → ∀ j, j < l.n →
+        r.c02v_res k i j =
+          if k < a.polys.size ∧ k < b.polys.size then
+            (if sub then ((a.c02v_res k i j * e1) % (l.q i).value + (l.q i).value - (b.c02v_res k i j * e2) % (l.q i).value) % (l.q i).value
+             else ((a.c02v_res k i j * e1) % (l.q i).value + (b.c02v_res k i j * e2) % (l.q i).value) % (l.q i).value)
+          else if k < a.polys.size then (a.c02v_res k i j * e1) % (l.q i).value
+          else (if sub then ((l.q i).value - (b.c02v_res k i j * e2) % (l.q i).value) % (l.q i).value
+                else (b.c02v_res k i j * e2) % (l.q i).value) := by
+  obtain ⟨a', b', heq, ca, sa, na, fa, ra, cb, sb, nb, fb, rb⟩ :=
+    c02v_balanced_decomp hq ht ha.toc02v_PolysCanon hb.toc02v_PolysCanon sub hne h1 h2 hbal
+  obtain ⟨s1, s2, s3⟩ := balance_spec ht h1 h2 hbal
+  obtain ⟨i1, i2, i3, i4⟩ := c02v_balance_inv ht h1 h2 hbal
+  obtain ⟨r, hr, cr, sr, nr, fr, rr⟩ := c02v_ctTranslate_core hq ca cb sub (by rw [na, nb, hntt]) (by rw [fa, fb])
+  rw [sa, sb] at sr rr
+  refine ⟨r, by rw [heq]; exact hr, cr, sr, by rw [nr, na], by rw [fr, fa], s3, s1, s2, i1, i2, i3, fun hcb => ?_, ?_⟩
+  · obtain ⟨_, hcf⟩ := i4 hcb
+    refine ⟨hcf, fun hs => ⟨cr, ?_⟩⟩
+    unfold c02v_cfOk
+    rw [hs, fr, fa]
+    simp only
+    have h2t := ht.two_le
+    refine ⟨fun h0 => ?_, s3.le⟩
+    rw [h0, Nat.Coprime, Nat.gcd_zero_left] at hcf
+    omega
+  · intro k hk i hi j hj
+    rw [rr k hk i hi j hj]
+    by_cases hka : k < a.polys.size <;> by_cases hkb : k < b.polys.size
+    · simp only [hka, hkb, and_self, if_true, ra k hka i hi j hj, rb k hkb i hi j hj]
+    · simp only [hka, hkb, and_false, if_true, if_false, ra k hka i hi j hj]
+    · simp only [hka, hkb, false_and, if_false, rb k hkb i hi j hj]
+    · omega
+
+/-- V4 phase: in every commutative ring in which `q_i = 0`, phase(result) = e1·phase(a) ± e2·phase(b) -/
+theorem ctTranslateBalanced_phase {S : Type} [CommRing S] {l : Level} (hq : c02v_QsWF l) (ht : l.t.WF) {a b r : Ct}
+    (ha : CtCanon l a) (hb : CtCanon l b) {sub : Bool} (hne : a.cf ≠ b.cf) (h1 : a.cf < l.t.value) (h2 : b.cf < l.t.value)
+    {f e1 e2 : Nat} (hbal : balanceCorrectionFactors a.cf b.cf l.t = .ok (f, e1, e2))
+    (hr : ctTranslateBalanced l a b sub = .ok r)
+    {i : Nat} (hi : i < l.size) (hS : (((l.q i).value : Nat) : S) = 0) (e : Nat → S) (s : S) :
+    c02v_phase l r i e s = if sub then c02v_phase l a i e s * ((e1 : Nat) : S) - c02v_phase l b i e s * ((e2 : Nat) : S)
+      else c02v_phase l a i e s * ((e1 : Nat) : S) + c02v_phase l b i e s * ((e2 : Nat) : S) := by
+  obtain ⟨a', b', heq, ca, sa, na, fa, ra, cb, sb, nb, fb, rb⟩ :=
+    c02v_balanced_decomp hq ht ha.toc02v_PolysCanon hb.toc02v_PolysCanon sub hne h1 h2 hbal
+  rw [heq] at hr
+  rw [c02v_ctTranslate_phase_core hq ca cb hr hi hS e s, c02v_scale_phase sa hi hS ra e s, c02v_scale_phase sb hi hS rb e s]
+
+/-- V4 totality: for unit correction factors below t the balanced add / sub always succeeds -/
+theorem ctTranslateBalanced_total {l : Level} (hq : c02v_QsWF l) (ht : l.t.WF) {a b : Ct} (ha : CtCanon l a) (hb : CtCanon l b)
+    (sub : Bool) (hntt : a.ntt = b.ntt) (h1 : a.cf < l.t.value) (h2 : b.cf < l.t.value)
+    (c1 : Nat.Coprime a.cf l.t.value) : ∃ r, ctTranslateBalanced l a b sub = .ok r := by
+  by_cases hne : a.cf = b.cf
+  · rw [ctTranslateBalanced_same l a b sub hne]
+    obtain ⟨r, hr, _⟩ := ctTranslate_spec hq ha hb sub hntt hne
+    exact ⟨r, hr⟩
+  · obtain ⟨⟨f, e1, e2⟩, hbal⟩ := balance_total ht h1 h2 c1
+    obtain ⟨r, hr, _⟩ := ctTranslateBalanced_spec hq ht ha hb sub hntt hne h1 h2 hbal
+    exact ⟨r, hr⟩
+
+/-- V4 decoding (per coefficient, `Spec.bgvDecode = map (c02v_dec t cf)`): if the exact phase coefficient of the balanced sum is
+    congruent to e1·x1 ± e2·x2 modulo t (which the phase theorem gives as long as the integers do not wrap modulo Q), then
+    decoding with the new factor f gives the sum resp. difference of the operands' decodings modulo t -/
+theorem bgvDecode_balanced {t f1 f2 f e1 e2 : Nat} (ht : 2 ≤ t) (ht199 : t < 2^199)
+    (c1 : Nat.Coprime f1 t) (c2 : Nat.Coprime f2 t) (cf : Nat.Coprime f t)
+    (he1 : (e1 * f1) % t = f) (he2 : (e2 * f2) % t = f) (sub : Bool) {x x1 x2 : Int}
+    (hx : x ≡ (if sub then (e1 : Int) * x1 - e2 * x2 else (e1 : Int) * x1 + e2 * x2) [ZMOD t]) :
+    c02v_dec t f x = if sub then (c02v_dec t f1 x1 + t - c02v_dec t f2 x2) % t
+      else (c02v_dec t f1 x1 + c02v_dec t f2 x2) % t := by
+  have htpos : 0 < t := by omega
+  have hI := c02v_inv_zmod ht ht199 cf
+  have hI1 := c02v_inv_zmod ht ht199 c1
+  have hI2 := c02v_inv_zmod ht ht199 c2
+  have hF1 := c02v_modeq_zmod he1
+  have hF2 := c02v_modeq_zmod he2
+  push_cast at hF1 hF2
+  have hX := (ZMod.intCast_eq_intCast_iff x _ t).mpr hx
+  have hd : ∀ c y, ((c02v_dec t c y : Nat) : ZMod t) = ((y : Int) : ZMod t) * ((Spec.invMod c t : Nat) : ZMod t) := by
+    intro c y
+    unfold c02v_dec
+    rw [ZMod.natCast_mod, Nat.cast_mul, c02v_imod_zmod y htpos]
+  have hdlt : c02v_dec t f2 x2 < t := Nat.mod_lt _ htpos
+  have k1 : ((e1 : Nat) : ZMod t) * ((Spec.invMod f t : Nat) : ZMod t) = ((Spec.invMod f1 t : Nat) : ZMod t) := by
+    linear_combination (((Spec.invMod f t : Nat) : ZMod t) * ((Spec.invMod f1 t : Nat) : ZMod t)) * hF1
+      - (((e1 : Nat) : ZMod t) * ((Spec.invMod f t : Nat) : ZMod t)) * hI1 + ((Spec.invMod f1 t : Nat) : ZMod t) * hI
+  have k2 : ((e2 : Nat) : ZMod t) * ((Spec.invMod f t : Nat) : ZMod t) = ((Spec.invMod f2 t : Nat) : ZMod t) := by
+    linear_combination (((Spec.invMod f t : Nat) : ZMod t) * ((Spec.invMod f2 t : Nat) : ZMod t)) * hF2
+      - (((e2 : Nat) : ZMod t) * ((Spec.invMod f t : Nat) : ZMod t)) * hI2 + ((Spec.invMod f2 t : Nat) : ZMod t) * hI
+  have hlhs : c02v_dec t f x = c02v_dec t f x % t := (Nat.mod_eq_of_lt (Nat.mod_lt _ htpos)).symm
+  cases sub
+  · simp only [Bool.false_eq_true, if_false] at hX ⊢
+    rw [hlhs]
+    apply (ZMod.natCast_eq_natCast_iff' _ _ t).mp
+    rw [Nat.cast_add, hd, hd, hd, hX]
+    push_cast
+    linear_combination ((x1 : Int) : ZMod t) * k1 + ((x2 : Int) : ZMod t) * k2
+  · simp only [if_true] at hX ⊢
+    rw [hlhs]
+    apply (ZMod.natCast_eq_natCast_iff' _ _ t).mp
+    rw [Nat.cast_sub (by omega), Nat.cast_add, hd, hd, hd, hX, ZMod.natCast_self]
+    push_cast
+    linear_combination ((x1 : Int) : ZMod t) * k1 - ((x2 : Int) : ZMod t) * k2
+
+/-- V4 decoding of a product: correction factors multiply, decodings multiply -/
+theorem bgvDecode_mul {t f1 f2 : Nat} (ht : 2 ≤ t) (ht199 : t < 2^199)
+    (c1 : Nat.Coprime f1 t) (c2 : Nat.Coprime f2 t) {x x1 x2 : Int} (hx : x ≡ x1 * x2 [ZMOD t]) :
+    c02v_dec t ((f1 * f2) % t) x = (c02v_dec t f1 x1 * c02v_dec t f2 x2) % t := by
+  have htpos : 0 < t := by omega
+  have cf : Nat.Coprime ((f1 * f2) % t) t := by
+    unfold Nat.Coprime
+    rw [← Nat.gcd_rec, Nat.gcd_comm]
+    exact Nat.Coprime.mul_left c1 c2
+  have hI := c02v_inv_zmod ht ht199 cf
+  have hI1 := c02v_inv_zmod ht ht199 c1
+  have hI2 := c02v_inv_zmod ht ht199 c2
+  rw [ZMod.natCast_mod, Nat.cast_mul] at hI
+  have hX := (ZMod.intCast_eq_intCast_iff x _ t).mpr hx
+  have hd : ∀ c y, ((c02v_dec t c y : Nat) : ZMod t) = ((y : Int) : ZMod t) * ((Spec.invMod c t : Nat) : ZMod t) := by
+    intro c y
+    unfold c02v_dec
+    rw [ZMod.natCast_mod, Nat.cast_mul, c02v_imod_zmod y htpos]
+  have k : ((Spec.invMod ((f1 * f2) % t) t : Nat) : ZMod t)
+      = ((Spec.invMod f1 t : Nat) : ZMod t) * ((Spec.invMod f2 t : Nat) : ZMod t) := by
+    linear_combination (((Spec.invMod f1 t : Nat) : ZMod t) * ((Spec.invMod f2 t : Nat) : ZMod t)) * hI
+      - (((Spec.invMod ((f1 * f2) % t) t : Nat) : ZMod t) * ((f2 : Nat) : ZMod t) * ((Spec.invMod f2 t : Nat) : ZMod t)) * hI1
+      - ((Spec.invMod ((f1 * f2) % t) t : Nat) : ZMod t) * hI2
+  have hlhs : c02v_dec t ((f1 * f2) % t) x = c02v_dec t ((f1 * f2) % t) x % t :=
+    (Nat.mod_eq_of_lt (Nat.mod_lt _ htpos)).symm
+  rw [hlhs]
+  apply (ZMod.natCast_eq_natCast_iff' _ _ t).mp
+  rw [Nat.cast_mul, hd, hd, hd, hX, k]
+  push_cast
+  ring
+
+/-- V4 decoding, whole polynomials under `Spec.bgvDecode` -/
+theorem bgvDecode_balanced_poly {t f1 f2 f e1 e2 : Nat} (ht : 2 ≤ t) (ht199 : t < 2^199)
+    (c1 : Nat.Coprime f1 t) (c2 : Nat.Coprime f2 t) (cf : Nat.Coprime f t)
+    (he1 : (e1 * f1) % t = f) (he2 : (e2 * f2) % t = f) (sub : Bool) {ph ph1 ph2 : Spec.ZPoly}
+    (hs1 : ph1.size = ph.size) (hs2 : ph2.size = ph.size)
+    (hx : ∀ j, j < ph.size → ph.getD j 0 ≡
+      (if sub then (e1 : Int) * ph1.getD j 0 - e2 * ph2.getD j 0 else (e1 : Int) * ph1.getD j 0 + e2 * ph2.getD j 0) [ZMOD t]) :
+    ∀ j, j < ph.size → (Spec.bgvDecode t f ph).getD j 0 =
+      if sub then ((Spec.bgvDecode t f1 ph1).getD j 0 + t - (Spec.bgvDecode t f2 ph2).getD j 0) % t
+      else ((Spec.bgvDecode t f1 ph1).getD j 0 + (Spec.bgvDecode t f2 ph2).getD j 0) % t := by
+  intro j hj
+  have hm : ∀ (c : Nat) (p : Spec.ZPoly), j < p.size → (Spec.bgvDecode t c p).getD j 0 = c02v_dec t c (p.getD j 0) := by
+    intro c p hp
+    rw [c02v_bgvDecode_eq]
+    simp [Array.getD, hp]
+  rw [hm f ph hj, hm f1 ph1 (by omega), hm f2 ph2 (by omega)]
+  exact bgvDecode_balanced ht ht199 c1 c2 cf he1 he2 sub (hx j hj)
+
+/-- REMARK (validity predicate, not the arithmetic): `ctValid` / `c02v_cfOk` accept a BGV correction factor equal to t, which
+    is not a unit; the product of such a ciphertext has correction factor 0, which the same predicate rejects — canonicity is
+    preserved by `bgvMultiply` only for unit factors (`bgvMultiply_canon`).  Witness at the example level (t = 5). -/
+theorem c02v_bgvMultiply_cf_zero_witness :
+    ∃ a r, CtCanon c02v_exLevel a ∧ bgvMultiply c02v_exLevel a c02v_exCt2 = .ok r ∧ r.cf = 0 := by
+  have ha : CtCanon c02v_exLevel { c02v_exCt2 with cf := 5 } :=
+    ⟨⟨c02v_exCt2_canon.two_le, c02v_exCt2_canon.le16, c02v_exCt2_canon.canon⟩, by decide, by decide⟩
+  obtain ⟨c, hc, _⟩ := ctMultiplyDyadic_spec c02v_exLevel_qsWF ha c02v_exCt2_canon rfl rfl
+  refine ⟨_, _, ha, bgvMultiply_spec c02v_exT_wf hc (by decide) (by decide), ?_⟩
+  show (5 * 2) % 5 = 0
+  rfl
+
+/-! ### hypotheses are satisfiable / specialisations -/
+
+/-- `CtCanon` is what the model's validator `ctValid` (`Ciphertext::is_valid_for`) establishes for a non-empty ciphertext -/
+theorem CtCanon.of_ctValid {l : Level} {ct : Ct} {s1 s2 : Bool} (h : ctValid l ct s1 s2 = true)
+    (h0 : ct.polys.size ≠ 0) : CtCanon l ct := by
+  unfold ctValid at h
+  simp only [Bool.and_eq_true, decide_eq_true_eq, Array.all_eq_true, List.all_eq_true, List.mem_range] at h
+  obtain ⟨⟨⟨hsz, hshape⟩, _⟩, hcf⟩ := h
+  refine ⟨⟨by omega, by omega, fun k hk => ?_⟩, ?_⟩
+  · obtain ⟨h1, h2⟩ := hshape k hk
+    have e : ct.polys.getD k #[] = ct.polys[k] := by simp [Array.getD, hk]
+    rw [e]
+    refine ⟨h1, fun i hi => ⟨(h2 i hi).1, fun j hj => ?_⟩⟩
+    have hj' : j < (Array.getD ct.polys[k] i #[]).size := by rw [(h2 i hi).1]; exact hj
+    have key : ∀ (arr : Array Nat) (j : Nat) (hj' : j < arr.size), arr[j] < (l.q i).value → arr.getD j 0 < (l.q i).value := by
+      intro arr j hj' h; simpa [Array.getD, hj'] using h
+    exact key _ j hj' ((h2 i hi).2 j hj')
+  · unfold c02v_cfOk
+    cases hs : l.scheme <;> rw [hs] at hcf <;> simpa using hcf
+
+/-- moduli produced by the model's constructor `Modulus.mk?` are well formed -/
+theorem c02v_qsWF_of_mk {l : Level} (h : ∀ i, i < l.size → ∃ v, v ≠ 0 ∧ Modulus.mk? v = .ok (l.q i)) : c02v_QsWF l :=
+  fun i hi => let ⟨_, hv, hm⟩ := h i hi; (Modulus.mk?_wf hm hv).1
+
+/-- one NTT slot, in `ZMod q_i` (the reading `e = δ_j`; `q_i = 0` holds by `ZMod.natCast_self`): the slot-wise phase of the
+    dyadic product is the product of the slot-wise phases, for every value `s` of the secret in that slot -/
+theorem ctMultiplyDyadic_slot {l : Level} (hq : c02v_QsWF l) {a b r : Ct} (ha : CtCanon l a) (hb : CtCanon l b)
+    (hr : ctMultiplyDyadic l a b = .ok r) {i : Nat} (hi : i < l.size) {j : Nat} (hj : j < l.n) (s : ZMod (l.q i).value) :
+    ctPhase r.polys.size (fun k => ((r.c02v_res k i j : Nat) : ZMod (l.q i).value)) s
+      = ctPhase a.polys.size (fun k => ((a.c02v_res k i j : Nat) : ZMod (l.q i).value)) s
+        * ctPhase b.polys.size (fun k => ((b.c02v_res k i j : Nat) : ZMod (l.q i).value)) s := by
+  have := ctMultiplyDyadic_phase hq ha hb hr hi (ZMod.natCast_self _) (c02v_delta j) (c02v_delta_orth j l.n) s
+  rwa [c02v_phase_delta l r i hj, c02v_phase_delta l a i hj, c02v_phase_delta l b i hj] at this
+
+/-- the hypotheses are jointly satisfiable (non-trivial instance: 2 moduli, N = 2, size 3, BGV factors 3 and 3 resp. 3 and 2) -/
+example : ∃ r, ctNegate c02v_exLevel c02v_exCt = .ok r ∧ CtCanon c02v_exLevel r :=
+  let ⟨r, h, c, _⟩ := ctNegate_spec c02v_exLevel_qsWF c02v_exCt_canon
+  ⟨r, h, c⟩
+
+example : ∃ r, ctMultiplyDyadic c02v_exLevel c02v_exCt c02v_exCt = .ok r ∧ r.polys.size = 5 :=
+  let ⟨r, h, sz, _⟩ := ctMultiplyDyadic_spec c02v_exLevel_qsWF c02v_exCt_canon c02v_exCt_canon rfl rfl
+  ⟨r, h, sz⟩
+
+example : ∃ r, ctTranslateBalanced c02v_exLevel c02v_exCt c02v_exCt2 true = .ok r :=
+  ctTranslateBalanced_total c02v_exLevel_qsWF c02v_exT_wf c02v_exCt_canon c02v_exCt2_canon true rfl
+    (by decide) (by decide) (by decide)
 
 end HC
